@@ -44,26 +44,28 @@ Record Dur (s : fs) (d : dworld) (g gd : list path) : Prop := {
   du_sy : forall p, mem_path p (synced s) = some (nget (dents d) p);
   du_df : forall p i, nget (dents d) p = Some (EFile i) -> fget (pfiles s) p = Some (iget (ddata d) i);
   du_dd : forall p, nget (dents d) p = Some EDir -> mem_path p (pdirs s) = true;
-  du_cur : forall p i, nget (names (dw d)) p = Some (EFile i) -> cont (fget (pfiles s) p) = iget (ddata d) i;
+  du_cur : forall p i, nget (names (dw d)) p = Some (EFile i) -> cont (fget (pfiles s) (resolve s p)) = iget (ddata d) i;
   du_pf : forall p, has_file (pfiles s) p = true -> is_file (dw d) p = true \/ mem_path p g = true;
   du_pd : forall p, mem_path p (pdirs s) = true -> is_dir (dw d) p = true \/ mem_path p gd = true;
   du_kd : forall p, mem_path p gd = true -> is_file (dw d) p = false;
   du_k2 : forall p, mem_path p g = true -> mem_path p gd = false;
   du_ef : forall p i, nget (dents d) p = Some (EFile i) ->
-            nget (names (dw d)) p = Some (EFile i) \/ mem_path p g = true;
+            nget (names (dw d)) p = Some (EFile i) \/ mem_path p g = true \/ (exists f, In (PRename f p) (pending s));
   du_k : forall p, mem_path p g = true -> is_dir (dw d) p = false;
-  du_u : forall p q i, nget (dents d) q = Some (EFile i) -> nget (names (dw d)) p = Some (EFile i) -> q = p;
+  du_u : forall p q i, nget (dents d) q = Some (EFile i) -> nget (names (dw d)) p = Some (EFile i) -> q = resolve s p;
   du_u2 : forall p q i, nget (dents d) p = Some (EFile i) -> nget (dents d) q = Some (EFile i) -> p = q;
   du_b : forall p i, nget (dents d) p = Some (EFile i) -> i < next_ino (dw d);
   du_b2 : forall i, next_ino (dw d) <= i -> iget (ddata d) i = [];
   du_z1 : forall p, has_file (pfiles s) p = true ->
-            In (CreateFile p) (pending s) \/ mem_path p (synced s) = true;
+            In (CreateFile p) (pending s) \/ mem_path p (synced s) = true \/ (exists f, In (PRename f p) (pending s));
   du_z2 : forall p, mem_path p (pdirs s) = true -> mem_path p (synced s) = true;
   du_g1 : forall p, mem_path p g = true ->
-            In (PRemoveFile p) (pending s) \/
+            In (PRemoveFile p) (pending s) \/ (exists r, In (PRename p r) (pending s)) \/
             (~ In (CreateFile p) (pending s) /\ mem_path p (synced s) = false /\ has_file (pfiles s) p = false);
   du_rl : forall p b, In (PRemoveFile p) (pending s) -> fold_left (fx_step p) (pending s) b = false;
-  du_rd : forall p, In (PRemoveDir p) (pending s) -> mem_path p gd = true
+  du_rd : forall p, In (PRemoveDir p) (pending s) -> mem_path p gd = true;
+  (* the new name of a pending rename is not where a directory was removed since the last crash *)
+  du_rtd : forall f r, In (PRename f r) (pending s) -> mem_path r gd = false
 }.
 
 (* the shadow of d restricted to what Dur reads besides the tree *)
@@ -78,33 +80,50 @@ Definition pend_step (o : pop) (d d' : dworld) : Prop :=
   end.
 
 (* ---- push-only transitions --------------------------------------------------------------------- *)
-(* generic: the persisted tables do not move, the log grows by ops *)
+Lemma Forall2_impl_in {A B} (R R' : A -> B -> Prop) : forall l1 l2,
+  (forall a b, In a l1 -> R a b -> R' a b) -> Forall2 R l1 l2 -> Forall2 R' l1 l2.
+Proof.
+  intros l1 l2 H Hf. induction Hf as [|a b l1 l2 Hab Hl IH]; constructor.
+  - apply H; [left; reflexivity|exact Hab].
+  - apply IH. intros a' b' Hin. apply H. right. exact Hin.
+Qed.
+
+Lemma in_pwrites o l : In o (pwrites l) -> In o l /\ is_pwrite o = true.
+Proof. unfold pwrites. apply filter_In. Qed.
+
+(* generic: the persisted tables do not move, the log grows by an operation that is not a rename *)
 Lemma Dur_push_gen s d g gd o d' g' gd' :
-  Dur s d g gd -> same_shadow d d' ->
+  Dur s d g gd -> same_shadow d d' -> not_rename o = true ->
   (forall p, o = PRemoveDir p -> mem_path p gd' = true) ->
   (forall p, mem_path p gd = true -> mem_path p gd' = true) ->
   (* conditions on the new log entry *)
   (forall p, o = CreateFile p -> mem_path p g = false /\ ~ In (PRemoveFile p) (pending s)) ->
   (* the tree-dependent fields, re-established by the caller *)
-  (forall p i, nget (names (dw d')) p = Some (EFile i) -> cont (fget (pfiles s) p) = iget (ddata d) i) ->
+  (forall p i, nget (names (dw d')) p = Some (EFile i) -> cont (fget (pfiles s) (resolve s p)) = iget (ddata d) i) ->
   (forall p, has_file (pfiles s) p = true -> is_file (dw d') p = true \/ mem_path p g' = true) ->
   (forall p, mem_path p (pdirs s) = true -> is_dir (dw d') p = true \/ mem_path p gd' = true) ->
   (forall p, mem_path p gd' = true -> is_file (dw d') p = false) ->
   (forall p, mem_path p g' = true -> mem_path p gd' = false) ->
-  (forall p i, nget (dents d) p = Some (EFile i) -> nget (names (dw d')) p = Some (EFile i) \/ mem_path p g' = true) ->
+  (forall p i, nget (dents d) p = Some (EFile i) ->
+     nget (names (dw d')) p = Some (EFile i) \/ mem_path p g' = true \/ (exists f, In (PRename f p) (pending s))) ->
   (forall p, mem_path p g' = true -> is_dir (dw d') p = false) ->
-  (forall p q i, nget (dents d) q = Some (EFile i) -> nget (names (dw d')) p = Some (EFile i) -> q = p) ->
+  (forall p q i, nget (dents d) q = Some (EFile i) -> nget (names (dw d')) p = Some (EFile i) -> q = resolve s p) ->
   (forall p i, nget (dents d) p = Some (EFile i) -> i < next_ino (dw d')) ->
   (forall i, next_ino (dw d') <= i -> iget (ddata d) i = []) ->
   (forall p, mem_path p g' = true -> mem_path p g = true \/ o = PRemoveFile p) ->
-  pend_step o d d' -> (forall p i, owner d g p i -> owner d' g' p i) ->
+  pend_step o d d' ->
+  (forall p i, owner d g p i -> (exists off data, In (PWrite p off data) (pending s)) -> owner d' g' p i) ->
   (forall p off data i, o = PWrite p off data -> nget (names (dw d')) p = Some (EFile i) -> i < next_ino (dw d')) ->
+  (forall f r, In (PRename f r) (pending s) -> mem_path r gd' = false) ->
   Dur (push s o) d' g' gd'.
 Proof.
-  intros [A Ap And B C D E F G Gd G2 H I J K L M N O P Q R] (S1 & S2 & S3) Hrd Hgdm Hcf Hcur Hpf Hpd Hkd Hk2 Hef Hk Hu Hb Hb2 Hg Hps Hown Hnew.
+  intros [A Ap And B C D E F G Gd G2 H I J K L M N O P Q R Rt] (S1 & S2 & S3) Hnr Hrd Hgdm Hcf Hcur Hpf Hpd Hkd Hk2 Hef Hk Hu Hb Hb2 Hg Hps Hown Hnew Hrtd.
   assert (Hmono : Forall2 (wrel d' g') (pwrites (pending s)) (dpend d)).
-  { eapply Forall2_impl; [|exact Ap]. intros o0 w (p0 & off0 & data0 & i0 & X1 & X2 & X3 & X4).
-    exists p0, off0, data0, i0. split; [exact X1|]. split; [exact X2|]. split; [exact X3|]. apply Hown. exact X4. }
+  { eapply Forall2_impl_in; [|exact Ap]. intros o0 w Hin (p0 & off0 & data0 & i0 & X1 & X2 & X3 & X4).
+    exists p0, off0, data0, i0. split; [exact X1|]. split; [exact X2|]. split; [exact X3|]. apply Hown; [exact X4|].
+    apply in_pwrites in Hin as [Hin _]. subst o0. eauto. }
+  assert (Hren : forall f r, In (PRename f r) (pending s ++ [o]) <-> In (PRename f r) (pending s)).
+  { intros f r. rewrite in_app_iff. split; [|auto]. intros [X|[X|[]]]; [exact X|]. subst o. discriminate. }
   constructor; cbn [pfiles pdirs synced pending bsize push set_pending]; rewrite ?S1, ?S2, ?S3; auto.
   - unfold pwrites. rewrite filter_app. cbn [filter]. destruct o; cbn [is_pwrite pend_step] in *;
       try (rewrite app_nil_r, Hps; exact Hmono).
@@ -112,20 +131,25 @@ Proof.
     constructor; [|constructor]. exists p, off, data, i.
     split; [reflexivity|]. split; [reflexivity|]. split; [exact X2|].
     split; [eapply Hnew; eauto|left; exact X1].
-  - intros p Hp. destruct (N p Hp) as [X|X]; [left; apply in_or_app; left; exact X|right; exact X].
+  - intros p i Hn. change (resolve (push s o) p) with (resolve (push s o) p). rewrite resolve_push_nr by exact Hnr. apply Hcur. exact Hn.
+  - intros p i Hp. destruct (Hef p i Hp) as [X|[X|[f X]]]; auto. right; right. exists f. apply Hren. exact X.
+  - intros p q i Hq Hp. change (resolve (push s o) p) with (resolve (push s o) p). rewrite resolve_push_nr by exact Hnr. eapply Hu; eauto.
+  - intros p Hp. destruct (N p Hp) as [X|[X|[f X]]]; [left; apply in_or_app; left; exact X|right; left; exact X|].
+    right; right. exists f. apply Hren. exact X.
   - intros p Hp. destruct (Hg p Hp) as [X|X].
-    + destruct (P p X) as [Y|(Y1 & Y2 & Y3)]; [left; apply in_or_app; left; exact Y|].
-      right. split; [|split; assumption]. intro Hin. apply in_app_iff in Hin as [Hin|[Hin|[]]]; [contradiction|].
+    + destruct (P p X) as [Y|[[r Y]|(Y1 & Y2 & Y3)]]; [left; apply in_or_app; left; exact Y|right; left; exists r; apply Hren; exact Y|].
+      right; right. split; [|split; assumption]. intro Hin. apply in_app_iff in Hin as [Hin|[Hin|[]]]; [contradiction|].
       destruct (Hcf p Hin). congruence.
     + left. apply in_or_app. right. left. exact X.
   - intros p b Hin. rewrite fold_left_app. cbn [fold_left].
     apply in_app_iff in Hin as [Hin|[Hin|[]]].
-    + rewrite (Q p b Hin). destruct o; cbn [fx_step]; try reflexivity.
+    + rewrite (Q p b Hin). destruct o; cbn [fx_step]; try reflexivity; try discriminate.
       * destruct (path_eqb p0 p) eqn:Epp; [|reflexivity]. apply path_eqb_eq in Epp. subst p0.
         destruct (Hcf p eq_refl). contradiction.
       * destruct (path_eqb p0 p); reflexivity.
     + subst o. cbn [fx_step]. rewrite path_eqb_refl. reflexivity.
   - intros p Hin. apply in_app_iff in Hin as [Hin|[Hin|[]]]; [apply Hgdm; eapply R; exact Hin|]. eapply Hrd. exact Hin.
+  - intros f r Hin. apply Hren in Hin. eapply Hrtd. exact Hin.
 Qed.
 
 Lemma owner_ext d d' g p i :
@@ -138,7 +162,7 @@ Lemma Dur_ext s d d' g gd :
   names (dw d') = names (dw d) -> next_ino (dw d') = next_ino (dw d) ->
   Dur s d' g gd.
 Proof.
-  intros [A Ap And B C D E F G Gd G2 H I J K L M N O P Q R] (S1 & S2 & S3) S4 Hn Hx.
+  intros [A Ap And B C D E F G Gd G2 H I J K L M N O P Q R Rt] (S1 & S2 & S3) S4 Hn Hx.
   constructor; unfold is_file, is_dir in *; rewrite ?S1, ?S2, ?S3, ?S4, ?Hn, ?Hx; auto.
   eapply Forall2_impl; [|exact Ap]. intros o w (p0 & off0 & data0 & i0 & X1 & X2 & X3 & X4).
   exists p0, off0, data0, i0. split; [exact X1|]. split; [exact X2|]. split; [exact X3|].
@@ -152,12 +176,13 @@ Lemma Dur_data s d g gd o d' p :
   (forall q j, nget (names (dw d)) q = Some (EFile j) -> j < next_ino (dw d)) ->
   Dur (push s o) d' g gd.
 Proof.
-  intros HD HS Hn Hx Hdo Hps Hbound. pose proof HD as [A Ap And B C D E F G Gd G2 H I J K L M N O P Q R].
+  intros HD HS Hn Hx Hdo Hps Hbound. pose proof HD as [A Ap And B C D E F G Gd G2 H I J K L M N O P Q R Rt].
   pose proof HS as (S1 & S2 & S3).
-  eapply (Dur_push_gen s d g gd o d' g gd HD HS); unfold is_file, is_dir in *; rewrite ?Hn, ?Hx; auto.
+  assert (Hnr : not_rename o = true) by (destruct o; try reflexivity; discriminate).
+  eapply (Dur_push_gen s d g gd o d' g gd HD HS Hnr); unfold is_file, is_dir in *; rewrite ?Hn, ?Hx; auto.
   - intros q Hq. subst o. discriminate.
   - intros q Hq. subst o. discriminate.
-  - intros q i Hq. eapply owner_ext; eauto.
+  - intros q i Hq _. eapply owner_ext; eauto.
   - intros q off data i _ Hq. apply (Hbound q i Hq).
 Qed.
 
@@ -169,18 +194,20 @@ Lemma Dur_create s d g gd p :
                     inodes := iset (inodes (dw d)) (next_ino (dw d)) [];
                     next_ino := next_ino (dw d) + 1; shs := shs (dw d) |}) g gd.
 Proof.
-  intros HI HD Hn Hg Hgd. pose proof HD as [A Ap And B C D E F G Gd G2 H I J K L M N O P Q R].
+  intros HI HD Hn Hg Hgd. pose proof HD as [A Ap And B C D E F G Gd G2 H I J K L M N O P Q R Rt].
   assert (Hnf : is_file (dw d) p = false) by (unfold is_file; rewrite Hn; reflexivity).
   assert (Hnd : is_dir (dw d) p = false) by (unfold is_dir; rewrite Hn; reflexivity).
   assert (Hpf : has_file (pfiles s) p = false).
   { destruct (has_file (pfiles s) p) eqn:E0; [|reflexivity]. destruct (F p E0); congruence. }
+  assert (Hnt : forall f, ~ In (PRename f p) (pending s)) by (eapply not_tgt_fresh; eauto).
   eapply (Dur_push_gen s d g gd (CreateFile p) _ g gd HD); cbn [dw with_dw names next_ino dents].
   - repeat split.
+  - reflexivity.
   - intros q Hq. discriminate.
   - auto.
   - intros q Hq. inversion Hq; subst q. split; [exact Hg|]. intro Hin. apply (inv_rm _ _ _ HI) in Hin. congruence.
   - intros q i. rewrite nget_nset. destruct (path_eqb p q) eqn:Epq.
-    + apply path_eqb_eq in Epq. subst q. intro Hi. inversion Hi; subst i.
+    + apply path_eqb_eq in Epq. subst q. intro Hi. inversion Hi; subst i. rewrite (resolve_other s p Hnt).
       unfold has_file in Hpf. destruct (fget (pfiles s) p); [discriminate|]. cbn [cont].
       symmetry. apply M. lia.
     + apply E.
@@ -203,7 +230,7 @@ Proof.
   - intros i Hi. apply M. lia.
   - auto.
   - reflexivity.
-  - intros q i (Hlt & Hown). unfold owner. cbn [dw with_dw names next_ino dents]. split; [lia|].
+  - intros q i (Hlt & Hown) _. unfold owner. cbn [dw with_dw names next_ino dents]. split; [lia|].
     destruct Hown as [X|(X1 & X2 & X3)].
     + left. rewrite nget_nset. destruct (path_eqb p q) eqn:Epq; [|exact X].
       apply path_eqb_eq in Epq. subst q. congruence.
@@ -211,17 +238,25 @@ Proof.
       intros r. rewrite nget_nset. destruct (path_eqb p r); [|apply X2].
       intro Hr. inversion Hr. lia.
   - intros q off data i Hq. discriminate.
+  - exact Rt.
+Qed.
+
+Lemma rshape_no_pwrite l f t p off data : rshape l f t -> In (PWrite p off data) l -> p <> f /\ p <> t.
+Proof.
+  intros Hs Hin. destruct (rshape_no_data l f t _ Hs Hin) as [A B]. cbn in A, B.
+  split; intro; subst p; rewrite path_eqb_refl in *; discriminate.
 Qed.
 
 Lemma Dur_unlink s d g gd p i :
   InvF s (dw d) g -> Dur s d g gd -> nget (names (dw d)) p = Some (EFile i) ->
   Dur (push s (PRemoveFile p)) (with_dw d (set_names (dw d) (ndel (names (dw d)) p))) (p :: g) gd.
 Proof.
-  intros HI HD Hn. pose proof HD as [A Ap And B C D E F G Gd G2 H I J K L M N O P Q R].
+  intros HI HD Hn. pose proof HD as [A Ap And B C D E F G Gd G2 H I J K L M N O P Q R Rt].
   assert (Hpgd : mem_path p gd = false).
   { destruct (mem_path p gd) eqn:E0; [|reflexivity]. apply Gd in E0. unfold is_file in E0. rewrite Hn in E0. discriminate. }
   eapply (Dur_push_gen s d g gd (PRemoveFile p) _ (p :: g) gd HD); cbn [dw with_dw names next_ino set_names dents].
   - repeat split.
+  - reflexivity.
   - intros q Hq. discriminate.
   - auto.
   - intros q Hq. discriminate.
@@ -236,8 +271,9 @@ Proof.
   - intros q Hq. rewrite mem_path_cons in Hq. destruct (path_eqb q p) eqn:Eqp.
     + apply path_eqb_eq in Eqp. subst q. exact Hpgd.
     + apply G2. exact Hq.
-  - intros q j Hq. rewrite mem_path_cons. destruct (path_eqb q p) eqn:Eqp; [right; reflexivity|].
-    destruct (H q j Hq) as [X|X]; [left|right; exact X]. rewrite nget_ndel, path_eqb_sym, Eqp. exact X.
+  - intros q j Hq. rewrite mem_path_cons. destruct (path_eqb q p) eqn:Eqp; [right; left; reflexivity|].
+    destruct (H q j Hq) as [X|[X|X]]; [left|right; left; exact X|right; right; exact X].
+    rewrite nget_ndel, path_eqb_sym, Eqp. exact X.
   - intros q Hq. rewrite is_dir_ndel. destruct (path_eqb p q) eqn:Epq; [reflexivity|].
     rewrite mem_path_cons, path_eqb_sym, Epq in Hq. apply I. exact Hq.
   - intros q r j Hr. rewrite nget_ndel. destruct (path_eqb p q); [discriminate|]. apply J. exact Hr.
@@ -247,7 +283,10 @@ Proof.
     + apply path_eqb_eq in Eqp. subst q. right. reflexivity.
     + left. exact Hq.
   - reflexivity.
-  - intros q j (Hlt & Hown). unfold owner. cbn [dw with_dw names next_ino dents set_names]. split; [exact Hlt|].
+  - intros q j (Hlt & Hown) (off & data & Hpw). unfold owner. cbn [dw with_dw names next_ino dents set_names]. split; [exact Hlt|].
+    (* a path with a pending write is no name of a pending rename *)
+    assert (Hqt : forall f, ~ In (PRename f q) (pending s)).
+    { intros f Hin. destruct (rshape_no_pwrite _ f q _ _ _ (rw_shape _ (inv_rw _ _ _ HI) f q Hin) Hpw) as [_ X]. congruence. }
     destruct Hown as [X|(X1 & X2 & X3)].
     + destruct (path_eqb p q) eqn:Epq.
       * apply path_eqb_eq in Epq. subst q. rewrite Hn in X. inversion X; subst j.
@@ -256,23 +295,27 @@ Proof.
            intro Hr. apply path_eqb_neq in Epr. apply Epr. eapply (inv_inj _ _ _ HI); eauto.
         -- destruct (nget (dents d) p) as [[|j']|] eqn:Ed.
            ++ exfalso. apply D in Ed. destruct (G p Ed) as [Y|Y]; [unfold is_dir in Y; rewrite Hn in Y; discriminate|congruence].
-           ++ left. destruct (H p j' Ed) as [Y|Y].
+           ++ left. destruct (H p j' Ed) as [Y|[Y|[f Y]]].
               ** rewrite Hn in Y. inversion Y. reflexivity.
               ** apply (inv_gone _ _ _ HI) in Y. unfold is_file in Y. rewrite Hn in Y. discriminate.
-           ++ right. split; [reflexivity|]. intros r Hr. assert (r = p) by (eapply J; eauto). subst r. congruence.
+              ** exfalso. eapply Hqt. exact Y.
+           ++ right. split; [reflexivity|]. intros r Hr. pose proof (J p r i Hr Hn) as Y.
+              rewrite (resolve_other s p Hqt) in Y. subst r. congruence.
       * left. rewrite nget_ndel, Epq. exact X.
     + right. split; [rewrite mem_path_cons, X1; apply orb_true_r|]. split; [|exact X3].
       intros r. rewrite nget_ndel. destruct (path_eqb p r); [discriminate|apply X2].
   - intros q off data j Hq. discriminate.
+  - exact Rt.
 Qed.
 
 Lemma Dur_mkdir s d g gd p :
   Dur s d g gd -> nget (names (dw d)) p = None -> mem_path p g = false ->
   Dur (push s (CreateDir p)) (with_dw d (set_names (dw d) (nset (names (dw d)) p EDir))) g gd.
 Proof.
-  intros HD Hn Hg. pose proof HD as [A Ap And B C D E F G Gd G2 H I J K L M N O P Q R].
+  intros HD Hn Hg. pose proof HD as [A Ap And B C D E F G Gd G2 H I J K L M N O P Q R Rt].
   eapply (Dur_push_gen s d g gd (CreateDir p) _ g gd HD); cbn [dw with_dw names next_ino set_names dents].
   - repeat split.
+  - reflexivity.
   - intros q Hq. discriminate.
   - auto.
   - intros q Hq. discriminate.
@@ -292,25 +335,27 @@ Proof.
   - exact M.
   - auto.
   - reflexivity.
-  - intros q j (Hlt & Hown). unfold owner. cbn [dw with_dw names next_ino dents set_names]. split; [exact Hlt|].
+  - intros q j (Hlt & Hown) _. unfold owner. cbn [dw with_dw names next_ino dents set_names]. split; [exact Hlt|].
     destruct Hown as [X|(X1 & X2 & X3)].
     + left. rewrite nget_nset. destruct (path_eqb p q) eqn:Epq; [|exact X].
       apply path_eqb_eq in Epq. subst q. congruence.
     + right. split; [exact X1|]. split; [|exact X3].
       intros r. rewrite nget_nset. destruct (path_eqb p r); [discriminate|apply X2].
   - intros q off data j Hq. discriminate.
+  - exact Rt.
 Qed.
 
 Lemma Dur_rmdir s d g gd p :
-  Dur s d g gd -> nget (names (dw d)) p = Some EDir ->
+  InvF s (dw d) g -> Dur s d g gd -> nget (names (dw d)) p = Some EDir ->
   Dur (push s (PRemoveDir p)) (with_dw d (set_names (dw d) (ndel (names (dw d)) p))) g (p :: gd).
 Proof.
-  intros HD Hn. pose proof HD as [A Ap And B C D E F G Gd G2 H I J K L M N O P Q R].
+  intros HI HD Hn. pose proof HD as [A Ap And B C D E F G Gd G2 H I J K L M N O P Q R Rt].
   assert (Hpd : is_dir (dw d) p = true) by (apply is_dir_iff; exact Hn).
   assert (Hpg : mem_path p g = false).
   { destruct (mem_path p g) eqn:E0; [|reflexivity]. apply I in E0. congruence. }
   eapply (Dur_push_gen s d g gd (PRemoveDir p) _ g (p :: gd) HD); cbn [dw with_dw names next_ino set_names dents].
   - repeat split.
+  - reflexivity.
   - intros q Hq. inversion Hq; subst q. rewrite mem_path_cons, path_eqb_refl. reflexivity.
   - intros q Hq. rewrite mem_path_cons, Hq. apply orb_true_r.
   - intros q Hq. discriminate.
@@ -333,32 +378,57 @@ Proof.
   - exact M.
   - auto.
   - reflexivity.
-  - intros q j (Hlt & Hown). unfold owner. cbn [dw with_dw names next_ino dents set_names]. split; [exact Hlt|].
+  - intros q j (Hlt & Hown) _. unfold owner. cbn [dw with_dw names next_ino dents set_names]. split; [exact Hlt|].
     destruct Hown as [X|(X1 & X2 & X3)].
     + left. rewrite nget_ndel. destruct (path_eqb p q) eqn:Epq; [|exact X].
       apply path_eqb_eq in Epq. subst q. congruence.
     + right. split; [exact X1|]. split; [|exact X3].
       intros r. rewrite nget_ndel. destruct (path_eqb p r); [discriminate|apply X2].
   - intros q off data j Hq. discriminate.
+  - intros f r Hin. rewrite mem_path_cons, (Rt f r Hin), orb_false_r. apply path_eqb_neq. intro; subst r.
+    destruct (inv_rd _ _ _ HI f p Hin). congruence.
 Qed.
 
 (* ---- sync_file: the file's contents become its durable contents ---------------------------- *)
+(* the file behind the new name of a pending rename has no unsynced data *)
+Lemma clean_target s d g gd f r i :
+  InvF s (dw d) g -> Dur s d g gd -> In (PRename f r) (pending s) -> nget (names (dw d)) r = Some (EFile i) ->
+  iget (ddata d) i = iget (inodes (dw d)) i /\ fcontent s f = cont (fget (pfiles s) f).
+Proof.
+  intros HI HD Hin Hn. pose proof (inv_rw _ _ _ HI) as Hw.
+  assert (Hc : fcontent s f = cont (fget (pfiles s) f)).
+  { unfold fcontent. apply fold_left_id_in. intros a o Ho. apply (cstep_not_data f); [|reflexivity].
+    apply (rshape_no_data _ f r o (rw_shape _ Hw f r Hin) Ho). }
+  split; [|exact Hc].
+  rewrite <- (du_cur _ _ _ _ HD r i Hn), <- (inv_ct _ _ _ HI r i Hn), (resolve_tgt s f r (rw_nodup _ Hw) Hin). symmetry. exact Hc.
+Qed.
+
 Lemma Dur_sync_file s d g gd p i :
   InvF s (dw d) g -> Dur s d g gd -> nget (names (dw d)) p = Some (EFile i) ->
   Dur (fst (sync_file s p)) (data_sync d i) g gd.
 Proof.
-  intros HI HD Hn. pose proof HD as [A Ap And B C D E F G Gd G2 H I J K L M N O P Q R].
-  assert (Hex : file_exists s p = true) by (rewrite (inv_fx _ _ _ HI); apply is_file_iff; eauto).
-  destruct (sync_file_views s p (inv_nr _ _ _ HI) Hex) as (_ & V1 & V2 & V3 & V4 & V5 & V6 & V7 & V8 & V9 & V10).
+  intros HI HD Hn. pose proof HD as [A Ap And B C D E F G Gd G2 H I J K L M N O P Q R Rt].
+  pose proof (inv_rw _ _ _ HI) as Hw.
+  assert (Hfp : is_file (dw d) p = true) by (apply is_file_iff; eauto).
+  assert (Hex : file_exists s p = true) by (rewrite (inv_fx _ _ _ HI); exact Hfp).
+  destruct (sync_file_views s p Hw Hex) as (_ & V1 & V2 & V3 & V4 & V5 & V6 & V7 & V8 & V9 & V10 & V11).
   set (s' := fst (sync_file s p)) in *.
-  assert (Hct : fcontent s p = iget (inodes (dw d)) i) by (apply (inv_ct _ _ _ HI); exact Hn).
   assert (Hpg : mem_path p g = false).
-  { destruct (mem_path p g) eqn:E0; [|reflexivity]. apply (inv_gone _ _ _ HI) in E0.
-    assert (is_file (dw d) p = true) by (apply is_file_iff; eauto). congruence. }
+  { destruct (mem_path p g) eqn:E0; [|reflexivity]. apply (inv_gone _ _ _ HI) in E0. congruence. }
   assert (Hkeep : forall o, In o (pending s) -> is_data_op p o = false -> In o (pending s')).
   { intros o Ho Hd. rewrite V5. apply filter_In. split; [exact Ho|]. rewrite Hd. reflexivity. }
   assert (Hsub : forall o, In o (pending s') -> In o (pending s)).
   { intros o Ho. rewrite V5 in Ho. apply filter_In in Ho. tauto. }
+  assert (Hnsrc : forall r, ~ In (PRename p r) (pending s)) by (eapply not_src_of_file; eauto).
+  (* what p resolves to holds the file's contents once synced *)
+  assert (Hrp : cont (fget (pfiles s') (resolve s p)) = iget (inodes (dw d)) i).
+  { destruct (tgt_dec (pending s) p) as [[f Hf]|Hnt].
+    - rewrite (resolve_tgt s f p (rw_nodup _ Hw) Hf).
+      assert (f <> p) by (apply (nodup_ren_ne _ f p (rw_nodup _ Hw) Hf)).
+      destruct (clean_target s d g gd f p i HI HD Hf Hn) as [X _].
+      rewrite V9 by assumption. rewrite <- X, <- (E p i Hn), (resolve_tgt s f p (rw_nodup _ Hw) Hf). reflexivity.
+    - rewrite (resolve_other s p Hnt), V8. cbn [cont].
+      rewrite <- (inv_ct _ _ _ HI p i Hn), (resolve_other s p Hnt). reflexivity. }
   constructor; cbn [dw dents ddata dbs dpend data_sync]; rewrite ?V6, ?V7; auto.
   - (* du_pend *)
     rewrite V5. unfold pwrites. rewrite filter_comm. fold (pwrites (pending s)).
@@ -377,44 +447,62 @@ Proof.
         -- apply path_eqb_eq in Epp. subst p0. congruence.
         -- destruct (N.eqb_spec i0 i); [|reflexivity]. subst i0. exfalso. apply (Y2 p). exact Hn.
   - (* du_df *)
-    intros q j Hq. rewrite iget_iset. destruct (path_eqb q p) eqn:Eqp.
-    + apply path_eqb_eq in Eqp. subst q. destruct (H p j Hq) as [X|X]; [|congruence].
-      rewrite Hn in X. inversion X; subst j. rewrite N.eqb_refl, V8, Hct. reflexivity.
-    + apply path_eqb_neq in Eqp. rewrite V9 by exact Eqp.
-      destruct (N.eqb_spec i j); [subst j; exfalso; apply Eqp; eapply J; eauto|]. apply C. exact Hq.
+    intros q j Hq. rewrite iget_iset. destruct (N.eqb_spec i j) as [Eij|Eij].
+    + subst j. pose proof (J p q i Hq Hn) as Hqr. subst q. rewrite <- Hrp.
+      destruct (fget (pfiles s') (resolve s p)) as [c|] eqn:Eg; [reflexivity|]. exfalso.
+      (* the durable name of i is persisted *)
+      destruct (path_dec (resolve s p) p) as [Er|Er]; [rewrite Er, V8 in Eg; discriminate|].
+      rewrite V9 in Eg by exact Er. rewrite (C _ _ Hq) in Eg. discriminate.
+    + destruct (path_dec q p) as [->|Eqp].
+      * (* the replaced file behind the new name of a pending rename *)
+        rewrite V8. destruct (H p j Hq) as [X|[X|[f X]]]; [congruence|congruence|].
+        f_equal. unfold fcontent. rewrite (C p j Hq). cbn [cont]. apply fold_left_id_in. intros a o Ho.
+        apply (cstep_not_data p); [|reflexivity]. apply (rshape_no_data _ f p o (rw_shape _ Hw f p X) Ho).
+      * rewrite V9 by exact Eqp. apply C. exact Hq.
   - (* du_dd *) intros q Hq. rewrite V10. apply D. exact Hq.
   - (* du_cur *)
-    intros q j Hq. rewrite iget_iset. destruct (path_eqb q p) eqn:Eqp.
-    + apply path_eqb_eq in Eqp. subst q. rewrite Hn in Hq. inversion Hq; subst j.
-      rewrite N.eqb_refl, V8, Hct. reflexivity.
-    + apply path_eqb_neq in Eqp. rewrite V9 by exact Eqp.
-      destruct (N.eqb_spec i j); [subst j; exfalso; apply Eqp; eapply (inv_inj _ _ _ HI); eauto|]. apply E. exact Hq.
+    intros q j Hq. rewrite iget_iset, V11. destruct (N.eqb_spec i j) as [Eij|Eij].
+    + subst j. assert (q = p) by (eapply (inv_inj _ _ _ HI); eauto). subst q. exact Hrp.
+    + assert (Hr : resolve s q <> p).
+      { intro Hr. destruct (tgt_dec (pending s) q) as [[f Hf]|Hnt].
+        - rewrite (resolve_tgt s f q (rw_nodup _ Hw) Hf) in Hr. subst f. eapply Hnsrc. exact Hf.
+        - rewrite (resolve_other s q Hnt) in Hr. subst q. congruence. }
+      rewrite V9 by exact Hr. apply E. exact Hq.
   - (* du_pf *)
     intros q Hq. destruct (path_eqb q p) eqn:Eqp.
-    + apply path_eqb_eq in Eqp. subst q. left. apply is_file_iff. eauto.
+    + apply path_eqb_eq in Eqp. subst q. left. exact Hfp.
     + apply path_eqb_neq in Eqp. unfold has_file in Hq. rewrite V9 in Hq by exact Eqp. apply F. exact Hq.
   - (* du_pd *) intros q Hq. rewrite V10 in Hq. apply G. exact Hq.
+  - (* du_ef *)
+    intros q j Hq. destruct (H q j Hq) as [X|[X|[f X]]]; auto. right; right. exists f.
+    apply Hkeep; [exact X|reflexivity].
+  - (* du_u *) intros q r j Hr Hq. rewrite V11. eapply J; eauto.
   - (* du_b2 *)
     intros j Hj. rewrite iget_iset. destruct (N.eqb_spec i j); [|apply M; exact Hj].
     subst j. apply (inv_bound _ _ _ HI) in Hn. lia.
   - (* du_z1 *)
     intros q Hq. destruct (path_eqb q p) eqn:Eqp.
     + apply path_eqb_eq in Eqp. subst q.
-      destruct (file_exists_src s p (inv_nr _ _ _ HI) Hex) as [X|X].
-      * destruct (N p X) as [Y|Y]; [left; apply Hkeep; [exact Y|reflexivity]|right; exact Y].
+      destruct (file_exists_src s p Hex) as [X|[X|[f X]]].
+      * destruct (N p X) as [Y|[Y|[f Y]]]; [left; apply Hkeep; [exact Y|reflexivity]|right; left; exact Y|].
+        right; right. exists f. apply Hkeep; [exact Y|reflexivity].
       * left. apply Hkeep; [exact X|reflexivity].
+      * right; right. exists f. apply Hkeep; [exact X|reflexivity].
     + apply path_eqb_neq in Eqp. unfold has_file in Hq. rewrite V9 in Hq by exact Eqp.
-      destruct (N q Hq) as [Y|Y]; [left; apply Hkeep; [exact Y|reflexivity]|right; exact Y].
+      destruct (N q Hq) as [Y|[Y|[f Y]]]; [left; apply Hkeep; [exact Y|reflexivity]|right; left; exact Y|].
+      right; right. exists f. apply Hkeep; [exact Y|reflexivity].
   - (* du_z2 *) intros q Hq. rewrite V10 in Hq. apply O. exact Hq.
   - (* du_g1 *)
-    intros q Hq. destruct (P q Hq) as [X|(X1 & X2 & X3)].
+    intros q Hq. destruct (P q Hq) as [X|[[r X]|(X1 & X2 & X3)]].
     + left. apply Hkeep; [exact X|reflexivity].
-    + right. split; [intro Y; apply X1; apply Hsub; exact Y|]. split; [exact X2|].
+    + right; left. exists r. apply Hkeep; [exact X|reflexivity].
+    + right; right. split; [intro Y; apply X1; apply Hsub; exact Y|]. split; [exact X2|].
       assert (q <> p) by (intro; subst q; congruence). unfold has_file. rewrite V9 by assumption. exact X3.
   - (* du_rl *)
     intros q b Hin. rewrite V5. rewrite fold_filter_skip.
     + apply Q. apply Hsub. exact Hin.
     + intros o _ Ho a. apply (fx_step_data p). destruct (is_data_op p o); [reflexivity|discriminate].
+  - (* du_rtd *) intros f r Hin. eapply Rt. apply Hsub. exact Hin.
 Qed.
 
 (* ---- sync_dir: the entries of the directory become durable ------------------------------------ *)
@@ -528,36 +616,64 @@ Proof.
       * destruct (nget (dents d) q) as [e|]; [|reflexivity]. destruct (taken (dw d) dd (q, e)); reflexivity.
 Qed.
 
-(* without a durable name that another current name of the same inode would displace *)
+(* a durable name outside the directory is not displaced by one of the directory's current names *)
 Lemma nget_dir_sync_nr d dd q : NoDup (map fst (dents d)) ->
-  (forall p r i, nget (dents d) r = Some (EFile i) -> nget (names (dw d)) p = Some (EFile i) -> r = p) ->
+  (forall k r i, nget (dents d) r = Some (EFile i) -> nget (names (dw d)) k = Some (EFile i) ->
+                 child_of k dd = true -> child_of r dd = false -> r = k) ->
   nget (dents (dir_sync d dd)) q =
   if child_of q dd then nget (names (dw d)) q
   else if path_eqb q dd then Some EDir else nget (dents d) q.
 Proof.
   intros Hnd Hu. rewrite nget_dir_sync by exact Hnd.
-  destruct (child_of q dd); [reflexivity|]. destruct (path_eqb q dd); [reflexivity|].
+  destruct (child_of q dd) eqn:Hcq; [reflexivity|]. destruct (path_eqb q dd); [reflexivity|].
   destruct (nget (dents d) q) as [[|i]|] eqn:Ed; try reflexivity.
   assert (Ht : taken (dw d) dd (q, EFile i) = false); [|rewrite Ht; reflexivity].
   unfold taken. cbn [snd fst].
   destruct (existsb _ (children (dw d) dd)) eqn:Ee; [|reflexivity]. exfalso.
-  apply existsb_exists in Ee as (k & _ & Hk). apply andb_true_iff in Hk as [Hne Hk].
+  apply existsb_exists in Ee as (k & Hk0 & Hk). apply andb_true_iff in Hk as [Hne Hk].
   destruct (nget (names (dw d)) k) as [[|j]|] eqn:Ek; try discriminate.
-  apply N.eqb_eq in Hk. subst j. assert (q = k) by (eapply Hu; eauto). subst k.
+  apply N.eqb_eq in Hk. subst j. apply in_children in Hk0 as [Hck _].
+  assert (q = k) by (eapply Hu; eauto). subst k.
   rewrite path_eqb_refl in Hne. discriminate.
 Qed.
 
-(* folds over a list that holds no removal of q *)
-Lemma fx_fold_noremove q : forall l b, ~ In (PRemoveFile q) l ->
-  (b = true \/ In (CreateFile q) l) -> fold_left (fx_step q) l b = true.
+(* a fold of fx_step either ignores its start value or returns it *)
+Lemma fx_step_cases q o : (forall b, fx_step q b o = b) \/ (exists c, forall b, fx_step q b o = c).
 Proof.
-  induction l as [|o l IH]; intros b Hn H; cbn [fold_left].
-  - destruct H as [H|[]]. exact H.
-  - apply IH; [intro; apply Hn; right; assumption|].
-    destruct H as [H|[H|H]]; [|subst o; left; cbn; rewrite path_eqb_refl; reflexivity|right; exact H].
-    left. subst b. destruct o; cbn; try reflexivity.
-    + destruct (path_eqb p q); reflexivity.
-    + destruct (path_eqb p q) eqn:E; [|reflexivity]. apply path_eqb_eq in E. subst p. exfalso. apply Hn. left; reflexivity.
+  destruct o; cbn; auto.
+  - destruct (path_eqb p q); [right; exists true; reflexivity|left; reflexivity].
+  - destruct (path_eqb from q); [right; exists false; reflexivity|].
+    destruct (path_eqb to q); [right; exists true; reflexivity|left; reflexivity].
+  - destruct (path_eqb p q); [right; exists false; reflexivity|left; reflexivity].
+Qed.
+
+Lemma fx_fold_cases q : forall l,
+  (forall b, fold_left (fx_step q) l b = b) \/ (forall b1 b2, fold_left (fx_step q) l b1 = fold_left (fx_step q) l b2).
+Proof.
+  induction l as [|o l IH]; [left; reflexivity|].
+  destruct (fx_step_cases q o) as [Hid|[c Hc]].
+  - destruct IH as [IH|IH].
+    + left. intro b. cbn [fold_left]. rewrite Hid. apply IH.
+    + right. intros b1 b2. cbn [fold_left]. apply IH.
+  - right. intros b1 b2. cbn [fold_left]. rewrite !Hc. reflexivity.
+Qed.
+
+(* folds over a list that holds no removal of q *)
+Lemma fx_fold_noremove q : forall l b, ~ In (PRemoveFile q) l -> (forall r, ~ In (PRename q r) l) ->
+  (b = true \/ In (CreateFile q) l \/ exists f, In (PRename f q) l) -> fold_left (fx_step q) l b = true.
+Proof.
+  induction l as [|o l IH]; intros b Hn Hs H; cbn [fold_left].
+  - destruct H as [H|[[]|[f []]]]. exact H.
+  - apply IH; [intro; apply Hn; right; assumption|intros r Hr; apply (Hs r); right; exact Hr|].
+    destruct H as [H|[[H|H]|[f [H|H]]]];
+      [|subst o; left; cbn; rewrite path_eqb_refl; reflexivity|right; left; exact H| |right; right; exists f; exact H].
+    + left. subst b. destruct o; cbn; try reflexivity.
+      * destruct (path_eqb p q); reflexivity.
+      * destruct (path_eqb from q) eqn:E; [apply path_eqb_eq in E; subst from; exfalso; apply (Hs to); left; reflexivity|].
+        destruct (path_eqb to q); reflexivity.
+      * destruct (path_eqb p q) eqn:E; [|reflexivity]. apply path_eqb_eq in E. subst p. exfalso. apply Hn. left; reflexivity.
+    + subst o. left. cbn. destruct (path_eqb f q) eqn:E; [apply path_eqb_eq in E; subst f; exfalso; apply (Hs q); left; reflexivity|].
+      rewrite path_eqb_refl. reflexivity.
 Qed.
 
 Lemma dx_fold_noremove q : forall l b, ~ In (PRemoveDir q) l ->
@@ -572,47 +688,61 @@ Proof.
     + destruct (path_eqb p q) eqn:E; [|reflexivity]. apply path_eqb_eq in E. subst p. exfalso. apply Hn. left; reflexivity.
 Qed.
 
+(* any-kind toggle of the entry q *)
+Definition ex_step (q : path) (b : bool) (o : pop) : bool :=
+  match o with
+  | CreateFile p | CreateDir p => if path_eqb p q then true else b
+  | PRemoveFile p | PRemoveDir p => if path_eqb p q then false else b
+  | PRename f t => if path_eqb t q then true else if path_eqb f q then false else b
+  | _ => b
+  end.
+
 Lemma ex_fold_src q : forall l b, fold_left (ex_step q) l b = true ->
-  b = true \/ In (CreateFile q) l \/ In (CreateDir q) l.
+  b = true \/ In (CreateFile q) l \/ In (CreateDir q) l \/ exists f, In (PRename f q) l.
 Proof.
   induction l as [|o l IH]; intros b H; cbn [fold_left] in *; [left; exact H|].
-  apply IH in H as [H|[H|H]]; [|right; left; right; exact H|right; right; right; exact H].
+  apply IH in H as [H|[H|[H|[f H]]]];
+    [|right; left; right; exact H|right; right; left; right; exact H|right; right; right; exists f; right; exact H].
   destruct o; cbn in H; auto.
   - destruct (path_eqb p q) eqn:E; auto. apply path_eqb_eq in E. subst. right; left; left; reflexivity.
-  - destruct (path_eqb p q) eqn:E; auto. apply path_eqb_eq in E. subst. right; right; left; reflexivity.
+  - destruct (path_eqb p q) eqn:E; auto. apply path_eqb_eq in E. subst. right; right; left; left; reflexivity.
+  - destruct (path_eqb to q) eqn:E; [apply path_eqb_eq in E; subst; right; right; right; exists from; left; reflexivity|].
+    destruct (path_eqb from q); [discriminate|auto].
   - destruct (path_eqb p q) eqn:E; auto. discriminate.
   - destruct (path_eqb p q) eqn:E; auto. discriminate.
 Qed.
 
-Lemma ex_fold_noremove q : forall l b, ~ In (PRemoveFile q) l -> ~ In (PRemoveDir q) l ->
-  (b = true \/ In (CreateFile q) l \/ In (CreateDir q) l) -> fold_left (ex_step q) l b = true.
+(* ex_step and fx_step agree on lists without directory operations on the key (renames of q onto itself aside) *)
+Lemma ex_fold_fx q : forall l b, ~ In (CreateDir q) l -> ~ In (PRemoveDir q) l -> ~ In (PRename q q) l ->
+  fold_left (ex_step q) l b = fold_left (fx_step q) l b.
 Proof.
-  induction l as [|o l IH]; intros b Hn1 Hn2 H; cbn [fold_left].
-  - destruct H as [H|[[]|[]]]. exact H.
-  - apply IH; [intro; apply Hn1; right; assumption|intro; apply Hn2; right; assumption|].
-    destruct H as [H|[[H|H]|[H|H]]];
-      [|subst o; left; cbn; rewrite path_eqb_refl; reflexivity|right; left; exact H
-       |subst o; left; cbn; rewrite path_eqb_refl; reflexivity|right; right; exact H].
-    left. subst b. destruct o; cbn; try reflexivity; destruct (path_eqb p q) eqn:E; try reflexivity;
-      apply path_eqb_eq in E; subst p; exfalso; [apply Hn1|apply Hn2]; left; reflexivity.
+  induction l as [|o l IH]; intros b H1 H2 H3; cbn [fold_left]; [reflexivity|].
+  rewrite IH by (intro; first [apply H1; right; assumption|apply H2; right; assumption|apply H3; right; assumption]). f_equal.
+  destruct o; cbn; try reflexivity;
+    try (destruct (path_eqb p q) eqn:E; try reflexivity;
+         apply path_eqb_eq in E; subst p; exfalso;
+         first [apply H1; left; reflexivity|apply H2; left; reflexivity]).
+  destruct (path_eqb to q) eqn:E1; destruct (path_eqb from q) eqn:E2; try reflexivity.
+  apply path_eqb_eq in E1, E2. subst. exfalso. apply H3. left. reflexivity.
 Qed.
 
-(* a fold whose list holds no operation on the key *)
-Lemma ex_fold_nokey q : forall l b,
-  (forall o, In o l -> o <> CreateFile q /\ o <> CreateDir q /\ o <> PRemoveFile q /\ o <> PRemoveDir q) ->
-  fold_left (ex_step q) l b = b.
+(* ex_step and dx_step agree on lists without file operations on the key *)
+Lemma ex_fold_dx q : forall l b, ~ In (CreateFile q) l -> ~ In (PRemoveFile q) l -> ~ In q (rnames l) ->
+  fold_left (ex_step q) l b = fold_left (dx_step q) l b.
 Proof.
-  intros l b H. apply fold_left_id_in. intros a o Ho. destruct (H o Ho) as (A & B & C & D).
-  destruct o; cbn; try reflexivity; destruct (path_eqb p q) eqn:E; try reflexivity;
-    apply path_eqb_eq in E; subst p; congruence.
+  induction l as [|o l IH]; intros b H1 H2 H3; cbn [fold_left]; [reflexivity|].
+  rewrite IH; [f_equal|intro; apply H1; right; assumption|intro; apply H2; right; assumption|
+               intro X; apply H3; destruct o; cbn; auto].
+  destruct o; cbn; try reflexivity;
+    try (destruct (path_eqb p q) eqn:E; try reflexivity;
+         apply path_eqb_eq in E; subst p; exfalso;
+         first [apply H1; left; reflexivity|apply H2; left; reflexivity]).
+  destruct (path_eqb to q) eqn:E1; [apply path_eqb_eq in E1; subst; exfalso; apply H3; cbn; auto|].
+  destruct (path_eqb from q) eqn:E2; [apply path_eqb_eq in E2; subst; exfalso; apply H3; cbn; auto|reflexivity].
 Qed.
-Lemma fx_fold_nokey q : forall l b,
-  (forall o, In o l -> o <> CreateFile q /\ o <> PRemoveFile q) -> fold_left (fx_step q) l b = b.
-Proof.
-  intros l b H. apply fold_left_id_in. intros a o Ho. destruct (H o Ho) as (A & C).
-  destruct o; cbn; try reflexivity; destruct (path_eqb p q) eqn:E; try reflexivity;
-    apply path_eqb_eq in E; subst p; congruence.
-Qed.
+
+Lemma fx_fold_nokey q : forall l b, (forall o, In o l -> on_key q o = false) -> fold_left (fx_step q) l b = b.
+Proof. intros l b H. apply fold_left_id_in. intros a o Ho. apply off_key_fx. auto. Qed.
 Lemma dx_fold_nokey q : forall l b,
   (forall o, In o l -> o <> CreateDir q /\ o <> PRemoveDir q) -> fold_left (dx_step q) l b = b.
 Proof.
@@ -620,50 +750,6 @@ Proof.
   destruct o; cbn; try reflexivity; destruct (path_eqb p q) eqn:E; try reflexivity;
     apply path_eqb_eq in E; subst p; congruence.
 Qed.
-Lemma aop_fold_nokey q : forall l st,
-  (forall o, In o l -> o <> CreateFile q /\ o <> PRemoveFile q /\ is_data_op q o = false) ->
-  fold_left (aop_f q) l st = st.
-Proof.
-  intros l st H. apply fold_left_id_in. intros a o Ho. destruct (H o Ho) as (A & C & D).
-  destruct o; cbn in *; try reflexivity; try (rewrite D; reflexivity);
-    destruct (path_eqb p q) eqn:E; try reflexivity; apply path_eqb_eq in E; subst p; congruence.
-Qed.
-
-(* ex_step and fx_step agree on lists without directory operations on the key *)
-Lemma ex_fold_fx q : forall l b, ~ In (CreateDir q) l -> ~ In (PRemoveDir q) l ->
-  fold_left (ex_step q) l b = fold_left (fx_step q) l b.
-Proof.
-  induction l as [|o l IH]; intros b H1 H2; cbn [fold_left]; [reflexivity|].
-  rewrite IH by (intro; first [apply H1; right; assumption|apply H2; right; assumption]). f_equal.
-  destruct o; cbn; try reflexivity; destruct (path_eqb p q) eqn:E; try reflexivity;
-    apply path_eqb_eq in E; subst p; exfalso;
-    first [apply H1; left; reflexivity|apply H2; left; reflexivity].
-Qed.
-
-(* persisted file entry after flushing entry ops that hold no removal of q *)
-Lemma aop_fold_create q : forall l st,
-  (forall o, In o l -> o <> PRemoveFile q /\ is_data_op q o = false) ->
-  fold_left (aop_f q) l st =
-  match st with Some c => Some c | None => if fold_left (fx_step q) l false then Some [] else None end.
-Proof.
-  induction l as [|o l IH]; intros st H; cbn [fold_left].
-  - destruct st; reflexivity.
-  - rewrite IH by (intros; apply H; right; assumption).
-    destruct (H o (or_introl eq_refl)) as [A B].
-    destruct o; cbn in *; try reflexivity.
-    + destruct (path_eqb p q) eqn:E.
-      * destruct st; [reflexivity|]. rewrite fx_fold_noremove; [reflexivity| |left; reflexivity].
-        intro Hin. destruct (H _ (or_intror Hin)). congruence.
-      * reflexivity.
-    + rewrite B. reflexivity.
-    + rewrite B. reflexivity.
-    + destruct (path_eqb p q) eqn:E; [|reflexivity]. apply path_eqb_eq in E. subst p. congruence.
-Qed.
-
-Lemma entry_key_file dd q o : is_entry_op dd o = true -> (o = CreateFile q \/ o = PRemoveFile q) -> child_of q dd = true.
-Proof. intros H [->| ->]; exact H. Qed.
-Lemma entry_key_dir dd q : is_entry_op dd (CreateDir q) = true -> path_eqb q dd || child_of q dd = true.
-Proof. intro H. exact H. Qed.
 
 Lemma fold_sd_bsize dd : forall l st,
   bsize (fold_left (fun st o => apply_op (set_synced st (mark_synced dd (synced st) o)) o) l st) = bsize st.
@@ -679,45 +765,61 @@ Definition sy_step (dd q : path) (b : bool) (o : pop) : bool :=
   | CreateFile p => if child_of p dd && path_eqb p q then true else b
   | CreateDir p => if (path_eqb p dd || child_of p dd) && path_eqb p q then true else b
   | PRemoveFile p | PRemoveDir p => if child_of p dd && path_eqb p q then false else b
+  | PRename f t => if child_of t dd && path_eqb t q then true else if child_of f dd && path_eqb f q then false else b
   | _ => b
   end.
 
-Lemma mem_mark_synced_gen dd q l o : not_rename o = true ->
+Lemma mem_mark_synced_gen dd q l o :
   mem_path q (mark_synced dd l o) = sy_step dd q (mem_path q l) o.
 Proof.
-  intro Hr. destruct o; cbn [mark_synced sy_step not_rename] in *; try discriminate; try reflexivity.
+  destruct o; cbn [mark_synced sy_step] in *; try reflexivity.
   - destruct (child_of p dd); cbn [andb]; [|reflexivity].
     rewrite mem_padd, (path_eqb_sym q p). destruct (path_eqb p q); [apply orb_true_r|apply orb_false_r].
   - destruct (path_eqb p dd || child_of p dd); cbn [andb]; [|reflexivity].
     rewrite mem_padd, (path_eqb_sym q p). destruct (path_eqb p q); [apply orb_true_r|apply orb_false_r].
+  - destruct (child_of to dd); cbn [andb].
+    + rewrite mem_padd, (path_eqb_sym q to). destruct (path_eqb to q); [apply orb_true_r|]. rewrite orb_false_r.
+      destruct (child_of from dd); cbn [andb]; [|reflexivity].
+      rewrite mem_pdel, (path_eqb_sym q from). destruct (path_eqb from q); cbn; [apply andb_false_r|apply andb_true_r].
+    + destruct (child_of from dd); cbn [andb]; [|reflexivity].
+      rewrite mem_pdel, (path_eqb_sym q from). destruct (path_eqb from q); cbn; [apply andb_false_r|apply andb_true_r].
   - destruct (child_of p dd); cbn [andb]; [|reflexivity].
     rewrite mem_pdel, (path_eqb_sym q p). destruct (path_eqb p q); cbn; [apply andb_false_r|apply andb_true_r].
   - destruct (child_of p dd); cbn [andb]; [|reflexivity].
     rewrite mem_pdel, (path_eqb_sym q p). destruct (path_eqb p q); cbn; [apply andb_false_r|apply andb_true_r].
 Qed.
 
-Lemma fold_mark_synced_gen dd q : forall l sy, forallb not_rename l = true ->
+Lemma fold_mark_synced_gen dd q : forall l sy,
   mem_path q (fold_left (mark_synced dd) l sy) = fold_left (sy_step dd q) l (mem_path q sy).
 Proof.
-  induction l as [|o l IH]; intros sy H; cbn [fold_left]; [reflexivity|].
-  cbn in H. apply andb_true_iff in H as [Ho Hl]. rewrite IH by exact Hl.
-  rewrite mem_mark_synced_gen by exact Ho. reflexivity.
+  induction l as [|o l IH]; intros sy; cbn [fold_left]; [reflexivity|].
+  rewrite IH. rewrite mem_mark_synced_gen. reflexivity.
 Qed.
 
+(* for a child of the directory, over a list whose renames have both names in the directory or neither *)
 Lemma sy_fold_child dd q : child_of q dd = true -> forall l b,
+  (forall f r, In (PRename f r) l -> child_of f dd = child_of r dd) ->
   fold_left (sy_step dd q) l b = fold_left (ex_step q) l b.
 Proof.
-  intros Hc l. induction l as [|o l IH]; intro b; cbn [fold_left]; [reflexivity|].
-  rewrite IH. f_equal. destruct o; cbn; try reflexivity;
-    destruct (path_eqb p q) eqn:E; rewrite ?andb_false_r; try reflexivity;
-    apply path_eqb_eq in E; subst p; rewrite Hc, ?orb_true_r; reflexivity.
+  intros Hc l. induction l as [|o l IH]; intros b Hs; cbn [fold_left]; [reflexivity|].
+  rewrite IH by (intros f r Hin; apply Hs; right; exact Hin). f_equal. destruct o; cbn; try reflexivity;
+    try (destruct (path_eqb p q) eqn:E; rewrite ?andb_false_r; try reflexivity;
+         apply path_eqb_eq in E; subst p; rewrite Hc, ?orb_true_r; reflexivity).
+  pose proof (Hs from to (or_introl eq_refl)) as Hft.
+  destruct (path_eqb to q) eqn:E1.
+  - apply path_eqb_eq in E1. subst to. rewrite Hc. reflexivity.
+  - rewrite andb_false_r. destruct (path_eqb from q) eqn:E2; [|rewrite andb_false_r; reflexivity].
+    apply path_eqb_eq in E2. subst from. rewrite Hc. reflexivity.
 Qed.
 
 Lemma sy_step_own dd b o :
   sy_step dd dd b o = match o with CreateDir p => if path_eqb p dd then true else b | _ => b end.
 Proof.
-  destruct o; cbn [sy_step]; try reflexivity; destruct (path_eqb p dd) eqn:E; rewrite ?andb_false_r; try reflexivity;
-    apply path_eqb_eq in E; subst p; rewrite child_of_irrefl; reflexivity.
+  destruct o; cbn [sy_step]; try reflexivity;
+    try (destruct (path_eqb p dd) eqn:E; rewrite ?andb_false_r; try reflexivity;
+         apply path_eqb_eq in E; subst p; rewrite child_of_irrefl; reflexivity).
+  destruct (path_eqb to dd) eqn:E1; [apply path_eqb_eq in E1; subst to; rewrite child_of_irrefl|rewrite andb_false_r]; cbn [andb];
+    (destruct (path_eqb from dd) eqn:E2; [apply path_eqb_eq in E2; subst from; rewrite child_of_irrefl|rewrite andb_false_r]; reflexivity).
 Qed.
 
 Lemma sy_fold_own dd : forall l b,
@@ -736,37 +838,128 @@ Lemma sy_fold_other dd q : child_of q dd = false -> path_eqb q dd = false -> for
   fold_left (sy_step dd q) l b = b.
 Proof.
   intros Hc Hq l b. apply fold_left_id_in. intros a o _.
-  destruct o; cbn; try reflexivity; destruct (path_eqb p q) eqn:E; rewrite ?andb_false_r; try reflexivity;
-    apply path_eqb_eq in E; subst p; rewrite Hc, ?Hq; reflexivity.
+  destruct o; cbn; try reflexivity;
+    try (destruct (path_eqb p q) eqn:E; rewrite ?andb_false_r; try reflexivity;
+         apply path_eqb_eq in E; subst p; rewrite Hc, ?Hq; reflexivity).
+  destruct (path_eqb to q) eqn:E1; [apply path_eqb_eq in E1; subst to; rewrite Hc|rewrite andb_false_r]; cbn [andb];
+    (destruct (path_eqb from q) eqn:E2; [apply path_eqb_eq in E2; subst from; rewrite Hc|rewrite andb_false_r]; reflexivity).
 Qed.
 
-(* ex_step and dx_step agree on lists without file operations on the key *)
-Lemma ex_fold_dx q : forall l b, ~ In (CreateFile q) l -> ~ In (PRemoveFile q) l ->
-  fold_left (ex_step q) l b = fold_left (dx_step q) l b.
+(* operations that are not flushed do not touch the entries of the directory *)
+Lemma ex_step_entry d q o a : same_side d o -> is_entry_op d o = false -> child_of q d = true -> ex_step q a o = a.
 Proof.
-  induction l as [|o l IH]; intros b H1 H2; cbn [fold_left]; [reflexivity|].
-  rewrite IH by (intro; first [apply H1; right; assumption|apply H2; right; assumption]). f_equal.
-  destruct o; cbn; try reflexivity; destruct (path_eqb p q) eqn:E; try reflexivity;
-    apply path_eqb_eq in E; subst p; exfalso;
-    first [apply H1; left; reflexivity|apply H2; left; reflexivity].
+  destruct o; cbn; intros Hs H Hc; try reflexivity;
+    try ((destruct (path_eqb p q) eqn:E; [|reflexivity]); apply path_eqb_eq in E; subst;
+         rewrite Hc, ?orb_true_r in H; discriminate).
+  apply orb_false_iff in H as [H1 H2].
+  destruct (path_eqb to q) eqn:E1; [apply path_eqb_eq in E1; subst; congruence|].
+  destruct (path_eqb from q) eqn:E2; [apply path_eqb_eq in E2; subst; congruence|reflexivity].
 Qed.
+
+(* ---- facts about the log that the invariants give --------------------------------------------------- *)
+Section LogFacts.
+  Variables (s : fs) (d : dworld) (g gd : list path).
+  Hypothesis HI : InvF s (dw d) g.
+  Hypothesis HD : Dur s d g gd.
+
+  Lemma log_no_remove q : mem_path q g = false -> ~ In (PRemoveFile q) (pending s).
+  Proof. intros Hq Hin. apply (inv_rm _ _ _ HI) in Hin. congruence. Qed.
+  Lemma log_no_rmdir q : mem_path q gd = false -> ~ In (PRemoveDir q) (pending s).
+  Proof. intros Hq Hin. apply (du_rd _ _ _ _ HD) in Hin. congruence. Qed.
+  Lemma log_no_src q : mem_path q g = false -> forall r, ~ In (PRename q r) (pending s).
+  Proof. intros Hq r Hin. apply (inv_rs _ _ _ HI) in Hin. congruence. Qed.
+  Lemma gone_none q : mem_path q g = true -> nget (names (dw d)) q = None.
+  Proof. intro Hq. apply nget_none_iff. split; [apply (inv_gone _ _ _ HI); exact Hq|apply (du_k _ _ _ _ HD); exact Hq]. Qed.
+
+  Lemma log_createfile q : In (CreateFile q) (pending s) -> mem_path q g = false -> is_file (dw d) q = true.
+  Proof.
+    intros Hin Hq. rewrite <- (inv_fx _ _ _ HI), file_exists_fold.
+    apply fx_fold_noremove; [apply log_no_remove; exact Hq|apply log_no_src; exact Hq|right; left; exact Hin].
+  Qed.
+  Lemma log_createdir q : In (CreateDir q) (pending s) -> mem_path q gd = false -> is_dir (dw d) q = true.
+  Proof.
+    intros Hin Hq. rewrite <- (inv_dx _ _ _ HI), (dir_exists_fold s q (rw_nd _ (inv_rw _ _ _ HI))).
+    apply dx_fold_noremove; [apply log_no_rmdir; exact Hq|right; exact Hin].
+  Qed.
+
+  (* kinds exclude each other *)
+  Lemma log_kfile q : is_dir (dw d) q = true \/ mem_path q gd = true ->
+    ~ In (CreateFile q) (pending s) /\ ~ In (PRemoveFile q) (pending s).
+  Proof.
+    intro Hk.
+    assert (Hqg : mem_path q g = false).
+    { destruct (mem_path q g) eqn:E0; [|reflexivity].
+      destruct Hk as [X|X]; [apply (du_k _ _ _ _ HD) in E0; congruence|apply (du_k2 _ _ _ _ HD) in E0; congruence]. }
+    split; [|apply log_no_remove; exact Hqg].
+    intro Hin. apply log_createfile in Hin; [|exact Hqg]. destruct Hk as [X|X].
+    - unfold is_file, is_dir in *. destruct (nget (names (dw d)) q) as [[|?]|]; discriminate.
+    - apply (du_kd _ _ _ _ HD) in X. congruence.
+  Qed.
+  Lemma log_kdir q : is_file (dw d) q = true \/ mem_path q g = true ->
+    ~ In (CreateDir q) (pending s) /\ ~ In (PRemoveDir q) (pending s).
+  Proof.
+    intro Hk.
+    assert (Hqg : mem_path q gd = false).
+    { destruct (mem_path q gd) eqn:E0; [|reflexivity].
+      destruct Hk as [X|X]; [apply (du_kd _ _ _ _ HD) in E0; congruence|apply (du_k2 _ _ _ _ HD) in X; congruence]. }
+    split; [|apply log_no_rmdir; exact Hqg].
+    intro Hin. apply log_createdir in Hin; [|exact Hqg]. destruct Hk as [X|X].
+    - unfold is_file, is_dir in *. destruct (nget (names (dw d)) q) as [[|?]|]; discriminate.
+    - apply (du_k _ _ _ _ HD) in X. congruence.
+  Qed.
+  (* a directory-kind path is the name of no pending rename *)
+  Lemma log_kren q : is_dir (dw d) q = true \/ mem_path q gd = true -> ~ In q (rnames (pending s)).
+  Proof.
+    intros Hk Hin. apply in_rnames in Hin as (f & r & Hin & [->| ->]).
+    - pose proof (inv_rs _ _ _ HI f r Hin) as X. destruct (inv_rd _ _ _ HI f r Hin) as [Y _].
+      destruct Hk as [Z|Z]; [congruence|apply (du_k2 _ _ _ _ HD) in X; congruence].
+    - destruct (inv_rd _ _ _ HI f r Hin) as [_ Y]. pose proof (du_rtd _ _ _ _ HD f r Hin) as X.
+      destruct Hk as [Z|Z]; congruence.
+  Qed.
+  (* for a directory-kind path the entry is synced iff the directory is persisted *)
+  Lemma log_dirkind q : is_dir (dw d) q = true \/ mem_path q gd = true -> mem_path q (synced s) = mem_path q (pdirs s).
+  Proof.
+    intro Hk. destruct (mem_path q (pdirs s)) eqn:Ep; [apply (du_z2 _ _ _ _ HD); exact Ep|].
+    rewrite (du_sy _ _ _ _ HD). destruct (nget (dents d) q) as [[|i]|] eqn:Ed; cbn [some]; [|exfalso|reflexivity].
+    - apply (du_dd _ _ _ _ HD) in Ed. congruence.
+    - destruct (du_ef _ _ _ _ HD q i Ed) as [X|[X|[f X]]].
+      + destruct Hk as [Y|Y]; [unfold is_dir in Y; rewrite X in Y; discriminate|].
+        apply (du_kd _ _ _ _ HD) in Y. unfold is_file in Y. rewrite X in Y. discriminate.
+      + destruct Hk as [Y|Y]; [apply (du_k _ _ _ _ HD) in X; congruence|apply (du_k2 _ _ _ _ HD) in X; congruence].
+      + apply (log_kren q Hk). apply (rnames_in _ _ _ X).
+  Qed.
+  Lemma log_rm_gone q : In (PRemoveFile q) (pending s) -> file_exists s q = false.
+  Proof.
+    intro Hin. apply (inv_rm _ _ _ HI) in Hin. rewrite (inv_fx _ _ _ HI). apply (inv_gone _ _ _ HI). exact Hin.
+  Qed.
+End LogFacts.
 
 Lemma Dur_sync_dir s d g gd dd :
   InvF s (dw d) g -> Dur s d g gd -> nget (names (dw d)) dd = Some EDir ->
+  (forall f r, In (PRename f r) (pending s) -> child_of f dd = child_of r dd) ->
   Dur (fst (sync_dir s dd)) (dir_sync d dd) g gd.
 Proof.
-  intros HI HD Hdd. pose proof HD as [A Ap And B C D E F G Gd G2 H I J K L M N O P Q R].
-  pose proof HI as [iA iB iC iD iE iF iG iH iI iJ].
-  assert (NDS := fun q => nget_dir_sync_nr d dd q And J).
-  set (t := dw d) in *.
+  intros HI HD Hdd Hsd. pose proof HD as [A Ap And B C D E F G Gd G2 H I J K L M N O P Q R Rt].
+  pose proof HI as [iA iB iC iD iE iF iG iH iI iJ iK iL iM].
   assert (Hex : dir_exists s dd = true) by (rewrite iC; apply is_dir_iff; exact Hdd).
-  destruct (sync_dir_views s dd iA Hex) as (_ & V1 & V2 & V3 & V4 & V5 & V6 & V7).
+  destruct (sync_dir_views s dd iA Hsd Hex) as (_ & V1 & V2 & V3 & V4 & V5 & Wo & Wc0 & Wh & V7 & Rc & Ro).
   set (flush := filter (is_entry_op dd) (pending s)) in *.
   set (s' := fst (sync_dir s dd)) in *.
-  assert (Hflnr : forallb not_rename flush = true) by (apply forallb_filter; exact iA).
+  assert (Wc : forall q, child_of q dd = true ->
+            fget (pfiles s') q = if file_exists s q then Some (cont (fget (pfiles s) (resolve s q))) else None).
+  { intros q Hc. apply Wc0; [exact Hc|]. apply (log_rm_gone s d g HI). }
+  assert (Hnd := rw_nodup _ iA).
+  (* a durable name outside the directory is not displaced *)
+  assert (Hu' : forall k r i, nget (dents d) r = Some (EFile i) -> nget (names (dw d)) k = Some (EFile i) ->
+            child_of k dd = true -> child_of r dd = false -> r = k).
+  { intros k r i Hr Hk Hck Hcr. pose proof (J k r i Hr Hk) as X.
+    destruct (tgt_dec (pending s) k) as [[f Hf]|Hnt].
+    - rewrite (resolve_tgt s f k Hnd Hf) in X. subst r. rewrite (Hsd f k Hf) in Hcr. congruence.
+    - rewrite (resolve_other s k Hnt) in X. exact X. }
+  assert (NDS := fun q => nget_dir_sync_nr d dd q And Hu').
   assert (Vsy : forall q, mem_path q (synced s') = fold_left (sy_step dd q) flush (mem_path q (synced s))).
   { intro q. unfold s', sync_dir. rewrite Hex. cbn [negb fst]. rewrite fold_sd_synced. cbn [synced set_pending].
-    apply fold_mark_synced_gen. exact Hflnr. }
+    apply fold_mark_synced_gen. }
   assert (Vbs : bsize s' = bsize s).
   { unfold s', sync_dir. rewrite Hex. cbn [negb fst]. rewrite fold_sd_bsize. reflexivity. }
   assert (Hfl_in : forall o, In o flush -> In o (pending s) /\ is_entry_op dd o = true)
@@ -777,138 +970,101 @@ Proof.
   { intros o Ho. rewrite V5 in Ho. apply filter_In in Ho as [X Y]. split; [exact X|]. destruct (is_entry_op dd o); [discriminate|reflexivity]. }
   assert (Hkeep_of : forall o, In o (pending s) -> is_entry_op dd o = false -> In o (pending s')).
   { intros o Ho He. rewrite V5. apply filter_In. split; [exact Ho|]. rewrite He. reflexivity. }
-  assert (Hnorm : forall q, mem_path q g = false -> ~ In (PRemoveFile q) (pending s)).
-  { intros q Hq Hin. apply iF in Hin. congruence. }
-  assert (Hnormd : forall q, mem_path q gd = false -> ~ In (PRemoveDir q) (pending s)).
-  { intros q Hq Hin. apply R in Hin. congruence. }
-  assert (Hgn : forall q, mem_path q g = true -> nget (names t) q = None).
-  { intros q Hq. apply nget_none_iff. split; [apply iG; exact Hq|apply I; exact Hq]. }
-  assert (Hcf : forall q, In (CreateFile q) (pending s) -> mem_path q g = false -> is_file t q = true).
-  { intros q Hin Hq. rewrite <- iB, (file_exists_nr s q iA). apply fx_fold_noremove; [apply Hnorm; exact Hq|right; exact Hin]. }
-  assert (Hcd : forall q, In (CreateDir q) (pending s) -> mem_path q gd = false -> is_dir t q = true).
-  { intros q Hin Hq. rewrite <- iC, (dir_exists_nr s q iA). apply dx_fold_noremove; [apply Hnormd; exact Hq|right; exact Hin]. }
-  (* kinds exclude each other *)
-  assert (Kfile : forall q, is_dir t q = true \/ mem_path q gd = true ->
-            ~ In (CreateFile q) (pending s) /\ ~ In (PRemoveFile q) (pending s)).
-  { intros q Hk.
-    assert (Hqg : mem_path q g = false).
-    { destruct (mem_path q g) eqn:E0; [|reflexivity]. destruct Hk as [X|X]; [apply I in E0; congruence|apply G2 in E0; congruence]. }
-    split; [|apply Hnorm; exact Hqg].
-    intro Hin. apply Hcf in Hin; [|exact Hqg]. destruct Hk as [X|X].
-    - unfold is_file, is_dir in *. destruct (nget (names t) q) as [[|?]|]; discriminate.
-    - apply Gd in X. congruence. }
-  assert (Kdir : forall q, is_file t q = true \/ mem_path q g = true ->
-            ~ In (CreateDir q) (pending s) /\ ~ In (PRemoveDir q) (pending s)).
-  { intros q Hk.
-    assert (Hqg : mem_path q gd = false).
-    { destruct (mem_path q gd) eqn:E0; [|reflexivity]. destruct Hk as [X|X]; [apply Gd in E0; congruence|apply G2 in X; congruence]. }
-    split; [|apply Hnormd; exact Hqg].
-    intro Hin. apply Hcd in Hin; [|exact Hqg]. destruct Hk as [X|X].
-    - unfold is_file, is_dir in *. destruct (nget (names t) q) as [[|?]|]; discriminate.
-    - apply I in X. congruence. }
-  (* for a directory-kind path the entry is synced iff the directory is persisted *)
-  assert (Hdk : forall q, is_dir t q = true \/ mem_path q gd = true -> mem_path q (synced s) = mem_path q (pdirs s)).
-  { intros q Hk. destruct (mem_path q (pdirs s)) eqn:Ep; [apply O; exact Ep|].
-    rewrite B. destruct (nget (dents d) q) as [[|i]|] eqn:Ed; cbn [some]; [|exfalso|reflexivity].
-    - apply D in Ed. congruence.
-    - destruct (H q i Ed) as [X|X].
-      + fold t in X. destruct Hk as [Y|Y]; [unfold is_dir in Y; rewrite X in Y; discriminate|].
-        apply Gd in Y. unfold is_file in Y. rewrite X in Y. discriminate.
-      + destruct Hk as [Y|Y]; [apply I in X; congruence|apply G2 in X; congruence]. }
-  assert (Hother : forall q, child_of q dd = false -> path_eqb q dd = false ->
-            forall o, In o flush -> o <> CreateFile q /\ o <> CreateDir q /\ o <> PRemoveFile q /\ o <> PRemoveDir q).
-  { intros q Hc Hq o Ho. apply Hfl_in in Ho as [_ He].
-    repeat split; intro; subst o; cbn in He; rewrite ?Hc, ?Hq in He; discriminate. }
-  assert (Hgone_fx : forall q b, mem_path q g = true -> child_of q dd = true ->
-            (b = false \/ In (PRemoveFile q) (pending s)) -> In (PRemoveFile q) (pending s) \/ ~ In (CreateFile q) (pending s) ->
-            fold_left (fx_step q) flush b = false).
-  { intros q b Hq Hc Hb Hrf.
-    assert (Hsame : fold_left (fx_step q) flush b = fold_left (fx_step q) (pending s) b).
-    { unfold flush. apply fold_filter_skip. intros o _ Ho a. apply (fx_step_entry dd). rewrite Ho, Hc. reflexivity. }
-    rewrite Hsame. destruct Hrf as [Hrf|Hncf]; [apply Q; exact Hrf|].
-    destruct Hb as [->|Hrf]; [|apply Q; exact Hrf].
-    destruct (fold_left (fx_step q) (pending s) false) eqn:E0; [|reflexivity].
-    apply fx_fold_src in E0 as [?|?]; [discriminate|contradiction]. }
-  assert (Hfk_ex : forall q b, is_file t q = true \/ mem_path q g = true ->
-            fold_left (ex_step q) flush b = fold_left (fx_step q) flush b).
-  { intros q b Hk. destruct (Kdir q Hk) as [X1 X2]. apply ex_fold_fx.
-    - intro Hin. apply Hfl_in in Hin as [Hin _]. contradiction.
-    - intro Hin. apply Hfl_in in Hin as [Hin _]. contradiction. }
+  assert (Hside : forall o, In o (pending s) -> same_side dd o) by (intros o Ho; destruct o; cbn; auto).
+  assert (Hgn := gone_none s d g gd HI HD).
+  (* the synced mark of a child is the any-kind toggle over the whole log *)
+  assert (Hsy_child : forall q, child_of q dd = true ->
+            mem_path q (synced s') = fold_left (ex_step q) (pending s) (mem_path q (synced s))).
+  { intros q Hc. rewrite Vsy, (sy_fold_child dd q Hc) by (intros f r Hin; apply Hfl_in in Hin as [Hin _]; apply Hsd; exact Hin).
+    unfold flush. apply fold_filter_skip. intros o Ho He a. apply (ex_step_entry dd); auto. }
   assert (Wpd_all : forall q, path_eqb q dd || child_of q dd = true -> mem_path q (pdirs s') = dir_exists s q).
-  { intros q Hc. rewrite V7, (dir_exists_nr s q iA). unfold flush. apply fold_filter_skip.
+  { intros q Hc. rewrite V7, (dir_exists_fold s q (rw_nd _ iA)). unfold flush. apply fold_filter_skip.
     intros o _ Ho a. apply (dx_step_entry dd). rewrite Ho, Hc. reflexivity. }
-  assert (Wsy_child : forall q, child_of q dd = true -> mem_path q (synced s') = some (nget (names t) q)).
-  { intros q Hc. rewrite Vsy, (sy_fold_child dd q Hc).
-    destruct (nget (names t) q) as [[|i]|] eqn:En; cbn [some].
+  assert (Wsy_child : forall q, child_of q dd = true -> mem_path q (synced s') = some (nget (names (dw d)) q)).
+  { intros q Hc. rewrite (Hsy_child q Hc).
+    destruct (nget (names (dw d)) q) as [[|i]|] eqn:En; cbn [some].
     - (* directory *)
-      assert (Hk : is_dir t q = true \/ mem_path q gd = true) by (left; apply is_dir_iff; exact En).
-      destruct (Kfile q Hk) as [X1 X2].
-      rewrite ex_fold_dx by (intro Hin; apply Hfl_in in Hin as [Hin _]; contradiction).
-      rewrite (Hdk q Hk), <- V7, Wpd_all by (rewrite Hc; apply orb_true_r). rewrite iC. apply is_dir_iff. exact En.
+      assert (Hk : is_dir (dw d) q = true \/ mem_path q gd = true) by (left; apply is_dir_iff; exact En).
+      destruct (log_kfile s d g gd HI HD q Hk) as [X1 X2]. pose proof (log_kren s d g gd HI HD q Hk) as X3.
+      rewrite ex_fold_dx by assumption.
+      rewrite (log_dirkind s d g gd HI HD q Hk), <- (dir_exists_fold s q (rw_nd _ iA)), iC. apply is_dir_iff. exact En.
     - (* file *)
-      assert (Hk : is_file t q = true \/ mem_path q g = true) by (left; apply is_file_iff; eauto).
-      assert (Hq : mem_path q g = false).
-      { destruct (mem_path q g) eqn:E0; [|reflexivity]. rewrite (Hgn q E0) in En. discriminate. }
-      rewrite (Hfk_ex q _ Hk). apply fx_fold_noremove.
-      + intro Hin. apply Hfl_in in Hin as [Hin _]. apply (Hnorm q Hq). exact Hin.
-      + assert (Hfx : file_exists s q = true) by (rewrite iB; apply is_file_iff; eauto).
-        destruct (file_exists_src s q iA Hfx) as [X|X].
-        * destruct (N q X) as [Y|Y]; [right; apply Hfl_of; [exact Y|exact Hc]|left; exact Y].
-        * right. apply Hfl_of; [exact X|exact Hc].
+      assert (Hf : is_file (dw d) q = true) by (apply is_file_iff; eauto).
+      assert (Hq : mem_path q g = false) by (destruct (mem_path q g) eqn:E0; [rewrite (Hgn q E0) in En; discriminate|reflexivity]).
+      destruct (log_kdir s d g gd HI HD q (or_introl Hf)) as [X1 X2].
+      assert (X3 : ~ In (PRename q q) (pending s)) by (apply (log_no_src s d g HI q Hq)).
+      rewrite ex_fold_fx by assumption.
+      assert (Hfe : fold_left (fx_step q) (pending s) (has_file (pfiles s) q) = true) by (rewrite <- file_exists_fold, iB; exact Hf).
+      destruct (fx_fold_cases q (pending s)) as [Hid|Hcst].
+      + rewrite Hid in *. destruct (N q Hfe) as [Y|[Y|[f Y]]]; [|exact Y|]; exfalso.
+        * assert (Z : fold_left (fx_step q) (pending s) false = true).
+          { apply fx_fold_noremove; [apply (log_no_remove s d g HI q Hq)|apply (log_no_src s d g HI q Hq)|right; left; exact Y]. }
+          rewrite Hid in Z. discriminate.
+        * assert (Z : fold_left (fx_step q) (pending s) false = true).
+          { apply fx_fold_noremove; [apply (log_no_remove s d g HI q Hq)|apply (log_no_src s d g HI q Hq)|right; right; exists f; exact Y]. }
+          rewrite Hid in Z. discriminate.
+      + rewrite (Hcst _ (has_file (pfiles s) q)). exact Hfe.
     - (* nothing *)
       destruct (mem_path q g) eqn:Hq.
-      + rewrite (Hfk_ex q _ (or_intror Hq)).
-        destruct (P q Hq) as [X|(X1 & X2 & X3)]; apply Hgone_fx; auto.
+      + destruct (log_kdir s d g gd HI HD q (or_intror Hq)) as [X1 X2].
+        assert (X3 : ~ In (PRename q q) (pending s)).
+        { intro Hin. apply (nodup_ren_ne _ q q Hnd Hin). reflexivity. }
+        rewrite ex_fold_fx by assumption.
+        destruct (P q Hq) as [X|[[r X]|(Y1 & Y2 & Y3)]].
+        * apply Q. exact X.
+        * apply (rshape_fx_src _ q r). apply (rw_shape _ iA q r X).
+        * rewrite Y2. destruct (fold_left (fx_step q) (pending s) false) eqn:E0; [|reflexivity]. exfalso.
+          pose proof (iB q) as Z. rewrite file_exists_fold, Y3, E0 in Z. unfold is_file in Z. rewrite En in Z. discriminate.
       + destruct (mem_path q gd) eqn:Hqd.
-        * assert (Hk : is_dir t q = true \/ mem_path q gd = true) by (right; exact Hqd).
-          destruct (Kfile q Hk) as [X1 X2].
-          rewrite ex_fold_dx by (intro Hin; apply Hfl_in in Hin as [Hin _]; contradiction).
-          rewrite (Hdk q Hk), <- V7, Wpd_all by (rewrite Hc; apply orb_true_r). rewrite iC.
-          unfold is_dir. fold t. rewrite En. reflexivity.
-        * destruct (fold_left (ex_step q) flush (mem_path q (synced s))) eqn:E0; [|reflexivity]. exfalso.
-          apply ex_fold_src in E0 as [X|[X|X]].
+        * assert (Hk : is_dir (dw d) q = true \/ mem_path q gd = true) by (right; exact Hqd).
+          destruct (log_kfile s d g gd HI HD q Hk) as [X1 X2]. pose proof (log_kren s d g gd HI HD q Hk) as X3.
+          rewrite ex_fold_dx by assumption.
+          rewrite (log_dirkind s d g gd HI HD q Hk), <- (dir_exists_fold s q (rw_nd _ iA)), iC.
+          unfold is_dir. rewrite En. reflexivity.
+        * destruct (fold_left (ex_step q) (pending s) (mem_path q (synced s))) eqn:E0; [|reflexivity]. exfalso.
+          apply ex_fold_src in E0 as [X|[X|[X|[f X]]]].
           -- rewrite B in X. destruct (nget (dents d) q) as [[|j]|] eqn:Ed; try discriminate.
-             ++ apply D in Ed. destruct (G q Ed) as [Y|Y]; [unfold is_dir in Y; fold t in Y; rewrite En in Y; discriminate|congruence].
-             ++ destruct (H q j Ed) as [Y|Y]; [fold t in Y; congruence|congruence].
-          -- apply Hfl_in in X as [X _]. apply Hcf in X; [|exact Hq]. unfold is_file in X. rewrite En in X. discriminate.
-          -- apply Hfl_in in X as [X _]. apply Hcd in X; [|exact Hqd]. unfold is_dir in X. rewrite En in X. discriminate. }
+             ++ apply D in Ed. destruct (G q Ed) as [Y|Y]; [unfold is_dir in Y; rewrite En in Y; discriminate|congruence].
+             ++ destruct (H q j Ed) as [Y|[Y|[f Y]]]; [congruence|congruence|].
+                destruct (iL f q Y) as [Z|Z]; [unfold is_file in Z; rewrite En in Z; discriminate|congruence].
+          -- apply (log_createfile s d g HI) in X; [|exact Hq]. unfold is_file in X. rewrite En in X. discriminate.
+          -- apply (log_createdir s d g gd HI HD) in X; [|exact Hqd]. unfold is_dir in X. rewrite En in X. discriminate.
+          -- destruct (iL f q X) as [Z|Z]; [unfold is_file in Z; rewrite En in Z; discriminate|congruence]. }
   assert (Wsy_own : mem_path dd (synced s') = true).
   { rewrite Vsy. apply sy_fold_own.
-    destruct (dir_exists_src s dd iA Hex) as [X|X].
+    destruct (dir_exists_src s dd (rw_nd _ iA) Hex) as [X|X].
     - left. apply O. exact X.
     - right. apply Hfl_of; [exact X|]. cbn. rewrite path_eqb_refl. reflexivity. }
   assert (Wsy_other : forall q, child_of q dd = false -> path_eqb q dd = false ->
             mem_path q (synced s') = mem_path q (synced s)).
   { intros q Hc Hq. rewrite Vsy. apply sy_fold_other; assumption. }
-  assert (Wpf_other : forall q, child_of q dd = false -> fget (pfiles s') q = fget (pfiles s) q).
-  { intros q Hc. rewrite V6. apply aop_fold_nokey. intros o Ho. apply Hfl_in in Ho as [_ He].
-    repeat split; try (intro; subst o; cbn in He; rewrite Hc in He; discriminate).
-    apply (entry_not_data dd). exact He. }
-  assert (Wpf_child : forall q, child_of q dd = true -> mem_path q g = false ->
-            fget (pfiles s') q = match fget (pfiles s) q with Some c => Some c | None =>
-                                    if fold_left (fx_step q) flush false then Some [] else None end).
-  { intros q Hc Hq. rewrite V6. apply aop_fold_create. intros o Ho. apply Hfl_in in Ho as [Ho He]. split.
-    - intro; subst o. apply (Hnorm q Hq). exact Ho.
-    - apply (entry_not_data dd). exact He. }
-  assert (Wpf_gone : forall q, child_of q dd = true -> mem_path q g = true -> has_file (pfiles s') q = false).
-  { intros q Hc Hq. unfold has_file. fold (some (fget (pfiles s') q)). rewrite V6, some_fold_aop_f.
-    change (some (fget (pfiles s) q)) with (has_file (pfiles s) q).
-    destruct (P q Hq) as [X|(X1 & X2 & X3)].
-    - apply Hgone_fx; auto.
-    - rewrite X3. apply Hgone_fx; auto. }
-  assert (Wpd : forall q, mem_path q (pdirs s') = true -> is_dir t q = true \/ mem_path q gd = true).
+  assert (Wpd : forall q, mem_path q (pdirs s') = true -> is_dir (dw d) q = true \/ mem_path q gd = true).
   { intros q Hq. rewrite V7 in Hq. apply dx_fold_src in Hq as [X|X]; [apply G; exact X|].
-    apply Hfl_in in X as [X _]. destruct (mem_path q gd) eqn:Hqd; [right; reflexivity|left; apply Hcd; assumption]. }
+    apply Hfl_in in X as [X _]. destruct (mem_path q gd) eqn:Hqd; [right; reflexivity|left; apply (log_createdir s d g gd HI HD); assumption]. }
   assert (Wpd_other : forall q, child_of q dd = false -> path_eqb q dd = false ->
             mem_path q (pdirs s') = mem_path q (pdirs s)).
-  { intros q Hc Hq. rewrite V7. apply dx_fold_nokey. intros o Ho. destruct (Hother q Hc Hq o Ho) as (_ & X & _ & Y). auto. }
-  constructor; cbn [dw dir_sync ddata dbs dpend]; fold t.
+  { intros q Hc Hq. rewrite V7. apply dx_fold_nokey. intros o Ho. apply Hfl_in in Ho as [_ He].
+    split; intro; subst o; cbn in He; rewrite Hc, Hq in He; discriminate. }
+  (* what a name resolves to stays on its side of the directory *)
+  assert (Hres_side : forall q, child_of (resolve s q) dd = child_of q dd).
+  { intro q. destruct (tgt_dec (pending s) q) as [[f Hf]|Hnt].
+    - rewrite (resolve_tgt s f q Hnd Hf). apply Hsd. exact Hf.
+    - rewrite (resolve_other s q Hnt). reflexivity. }
+  assert (Wres : forall q i, nget (names (dw d)) q = Some (EFile i) ->
+            cont (fget (pfiles s') (resolve s' q)) = cont (fget (pfiles s) (resolve s q))).
+  { intros q i Hn. assert (Hfe : file_exists s q = true) by (rewrite iB; apply is_file_iff; eauto).
+    destruct (child_of q dd) eqn:Hc.
+    - rewrite (Rc q Hc), (Wc q Hc), Hfe. reflexivity.
+    - rewrite (Ro q Hc). rewrite Wo; [reflexivity|]. rewrite Hres_side. exact Hc. }
+  assert (Hkept_ren : forall f r, In (PRename f r) (pending s) -> child_of r dd = false -> In (PRename f r) (pending s')).
+  { intros f r Hin Hc. apply Hkeep_of; [exact Hin|]. cbn. rewrite (Hsd f r Hin), Hc. reflexivity. }
+  constructor; cbn [dw dir_sync ddata dbs dpend].
   - (* du_bs *) rewrite Vbs. exact A.
   - (* du_pend *)
     rewrite V5, pwrites_filter_keep by (intros o Ho; destruct o; try discriminate; reflexivity).
     eapply Forall2_impl; [|exact Ap]. intros o w (p0 & off0 & data0 & i0 & X1 & X2 & X3 & (Hlt & X4)).
     exists p0, off0, data0, i0. split; [exact X1|]. split; [exact X2|]. split; [exact X3|].
-    split; [exact Hlt|]. cbn [dw dir_sync]. fold t.
+    split; [exact Hlt|]. cbn [dw dir_sync].
     destruct X4 as [Y|(Y1 & Y2 & Y3)]; [left; exact Y|right].
     split; [exact Y1|]. split; [exact Y2|].
     assert (Hother_q : forall q, child_of q dd = false -> path_eqb q dd = false ->
@@ -916,10 +1072,10 @@ Proof.
     { intros q Hc Hq Hdq Hdp Hcp. assert (p0 = q) by (eapply K; eauto). subst q. congruence. }
     assert (Hall : (nget (dents d) p0 = Some (EFile i0) /\ child_of p0 dd = true) \/ (forall q, nget (dents d) q <> Some (EFile i0)) ->
               forall q, nget (dents (dir_sync d dd)) q <> Some (EFile i0)).
-    { intros Hcase q. rewrite NDS. fold t. destruct (child_of q dd) eqn:Hcq; [apply Y2|].
+    { intros Hcase q. rewrite NDS. destruct (child_of q dd) eqn:Hcq; [apply Y2|].
       destruct (path_eqb q dd) eqn:Hqd; [discriminate|].
       destruct Hcase as [[Hdp Hcp]|Hno]; [|apply Hno]. intro Hdq. eapply Hother_q; eauto. }
-    rewrite NDS. fold t.
+    rewrite NDS.
     destruct (child_of p0 dd) eqn:Hcp.
     + right. split; [apply Hgn; exact Y1|]. apply Hall.
       destruct Y3 as [Z|[_ Z]]; [left; split; [exact Z|reflexivity]|right; exact Z].
@@ -929,86 +1085,65 @@ Proof.
   - (* du_nodup *)
     unfold dir_sync. cbn [dents]. apply nodup_fold_kids. apply nodup_nset. apply nodup_filter_keys. apply nodup_filter_keys. exact And.
   - (* du_sy *)
-    intro q. rewrite NDS. fold t. destruct (child_of q dd) eqn:Hc.
+    intro q. rewrite NDS. destruct (child_of q dd) eqn:Hc.
     + apply Wsy_child. exact Hc.
     + destruct (path_eqb q dd) eqn:Hq.
       * apply path_eqb_eq in Hq. subst q. exact Wsy_own.
       * rewrite Wsy_other by assumption. apply B.
   - (* du_df *)
-    intros q i. rewrite NDS. fold t. destruct (child_of q dd) eqn:Hc.
-    + intro Hn.
-      assert (Hq : mem_path q g = false).
-      { destruct (mem_path q g) eqn:E0; [|reflexivity]. rewrite (Hgn q E0) in Hn. discriminate. }
-      rewrite (Wpf_child q Hc Hq). pose proof (E q i Hn) as Hcur.
-      destruct (fget (pfiles s) q) as [c|] eqn:Ef; [cbn [cont] in Hcur; congruence|].
-      cbn [cont] in Hcur. rewrite <- Hcur.
-      assert (Hfx : file_exists s q = true) by (rewrite iB; apply is_file_iff; eauto).
-      destruct (file_exists_src s q iA Hfx) as [X|X]; [unfold has_file in X; rewrite Ef in X; discriminate|].
-      rewrite fx_fold_noremove; [reflexivity| |right; apply Hfl_of; [exact X|exact Hc]].
-      intro Hin. apply Hfl_in in Hin as [Hin _]. apply (Hnorm q Hq). exact Hin.
-    + destruct (path_eqb q dd); [discriminate|]. intro Hn. rewrite Wpf_other by exact Hc. apply C. exact Hn.
+    intros q i. rewrite NDS. destruct (child_of q dd) eqn:Hc.
+    + intro Hn. assert (Hfe : file_exists s q = true) by (rewrite iB; apply is_file_iff; eauto).
+      rewrite (Wc q Hc), Hfe, (E q i Hn). reflexivity.
+    + destruct (path_eqb q dd); [discriminate|]. intro Hn. rewrite Wo by exact Hc. apply C. exact Hn.
   - (* du_dd *)
-    intros q. rewrite NDS. fold t. destruct (child_of q dd) eqn:Hc.
+    intros q. rewrite NDS. destruct (child_of q dd) eqn:Hc.
     + intro Hn. rewrite Wpd_all by (rewrite Hc; apply orb_true_r). rewrite iC. apply is_dir_iff. exact Hn.
     + destruct (path_eqb q dd) eqn:Hq.
       * intros _. rewrite Wpd_all by (rewrite Hq; reflexivity). apply path_eqb_eq in Hq. subst q. exact Hex.
       * intro Hn. rewrite Wpd_other by assumption. apply D. exact Hn.
-  - (* du_cur *)
-    intros q i Hn.
-    assert (Hq : mem_path q g = false).
-    { destruct (mem_path q g) eqn:E0; [|reflexivity]. rewrite (Hgn q E0) in Hn. discriminate. }
-    destruct (child_of q dd) eqn:Hc.
-    + rewrite (Wpf_child q Hc Hq). rewrite <- (E q i Hn).
-      destruct (fget (pfiles s) q); [reflexivity|]. destruct (fold_left (fx_step q) flush false); reflexivity.
-    + rewrite Wpf_other by exact Hc. apply E. exact Hn.
+  - (* du_cur *) intros q i Hn. rewrite (Wres q i Hn). apply E. exact Hn.
   - (* du_pf *)
-    intros q Hq. destruct (mem_path q g) eqn:Hg; [right; reflexivity|left].
-    destruct (child_of q dd) eqn:Hc.
-    + unfold has_file in Hq. rewrite (Wpf_child q Hc Hg) in Hq.
-      destruct (fget (pfiles s) q) eqn:Ef.
-      * destruct (F q) as [X|X]; [unfold has_file; rewrite Ef; reflexivity|exact X|congruence].
-      * destruct (fold_left (fx_step q) flush false) eqn:E0; [|discriminate].
-        apply fx_fold_src in E0 as [?|X]; [discriminate|]. apply Hfl_in in X as [X _]. apply Hcf; assumption.
-    + unfold has_file in Hq. rewrite Wpf_other in Hq by exact Hc.
-      destruct (F q Hq) as [X|X]; [exact X|congruence].
+    intros q Hq. destruct (child_of q dd) eqn:Hc.
+    + left. rewrite (Wh q Hc), iB in Hq. exact Hq.
+    + unfold has_file in Hq. rewrite Wo in Hq by exact Hc. apply F. exact Hq.
   - (* du_pd *) exact Wpd.
   - (* du_kd *) exact Gd.
   - (* du_k2 *) exact G2.
   - (* du_ef *)
-    intros q i. rewrite NDS. fold t. destruct (child_of q dd); [intro Hn; left; exact Hn|].
-    destruct (path_eqb q dd); [discriminate|]. apply H.
+    intros q i. rewrite NDS. destruct (child_of q dd) eqn:Hc; [intro Hn; left; exact Hn|].
+    destruct (path_eqb q dd); [discriminate|]. intro Hn.
+    destruct (H q i Hn) as [X|[X|[f X]]]; auto. right; right. exists f. apply Hkept_ren; assumption.
   - (* du_k *) exact I.
   - (* du_u *)
-    intros p q i. rewrite NDS. fold t. destruct (child_of q dd).
-    + intros Hq Hp. eapply iH; eauto.
-    + destruct (path_eqb q dd); [discriminate|]. apply J.
+    intros p q i. rewrite NDS. destruct (child_of q dd) eqn:Hcq.
+    + intros Hq Hp. assert (q = p) by (eapply iH; eauto). subst p. symmetry. apply Rc. exact Hcq.
+    + destruct (path_eqb q dd); [discriminate|]. intros Hq Hp. pose proof (J p q i Hq Hp) as X.
+      destruct (child_of p dd) eqn:Hcp.
+      * exfalso. rewrite X, Hres_side in Hcq. congruence.
+      * rewrite (Ro p Hcp). exact X.
   - (* du_u2 *)
-    intros p q i. rewrite !NDS. fold t.
-    destruct (child_of p dd); destruct (child_of q dd).
+    intros p q i. rewrite !NDS.
+    destruct (child_of p dd) eqn:Hcp; destruct (child_of q dd) eqn:Hcq.
     + intros; eapply iH; eauto.
-    + destruct (path_eqb q dd); [discriminate|]. intros Hp Hq. symmetry. eapply J; eauto.
-    + destruct (path_eqb p dd); [discriminate|]. intros Hp Hq. eapply J; eauto.
+    + destruct (path_eqb q dd); [discriminate|]. intros Hp Hq. exfalso.
+      pose proof (J p q i Hq Hp) as X. rewrite X, Hres_side in Hcq. congruence.
+    + destruct (path_eqb p dd); [discriminate|]. intros Hp Hq. exfalso.
+      pose proof (J q p i Hp Hq) as X. rewrite X, Hres_side in Hcp. congruence.
     + destruct (path_eqb p dd); [discriminate|]. destruct (path_eqb q dd); [discriminate|]. apply K.
   - (* du_b *)
-    intros q i. rewrite NDS. fold t. destruct (child_of q dd); [apply iI|].
+    intros q i. rewrite NDS. destruct (child_of q dd); [apply iI|].
     destruct (path_eqb q dd); [discriminate|]. apply L.
   - (* du_b2 *) exact M.
   - (* du_z1 *)
     intros q Hq. destruct (child_of q dd) eqn:Hc.
-    + right. destruct (mem_path q g) eqn:Hg; [rewrite (Wpf_gone q Hc Hg) in Hq; discriminate|].
-      rewrite (Wsy_child q Hc).
-      assert (X : is_file t q = true).
-      { unfold has_file in Hq. rewrite (Wpf_child q Hc Hg) in Hq.
-        destruct (fget (pfiles s) q) eqn:Ef.
-        - destruct (F q) as [X|X]; [unfold has_file; rewrite Ef; reflexivity|exact X|congruence].
-        - destruct (fold_left (fx_step q) flush false) eqn:E0; [|discriminate].
-          apply fx_fold_src in E0 as [?|X]; [discriminate|]. apply Hfl_in in X as [X _]. apply Hcf; assumption. }
-      apply is_file_iff in X as [i X]. rewrite X. reflexivity.
-    + unfold has_file in Hq. rewrite Wpf_other in Hq by exact Hc.
-      destruct (N q Hq) as [X|X].
+    + right; left. rewrite (Wh q Hc), iB in Hq. apply is_file_iff in Hq as [i Hq].
+      rewrite (Wsy_child q Hc), Hq. reflexivity.
+    + unfold has_file in Hq. rewrite Wo in Hq by exact Hc.
+      destruct (N q Hq) as [X|[X|[f X]]].
       * left. apply Hkeep_of; [exact X|]. cbn. exact Hc.
-      * right. destruct (path_eqb q dd) eqn:Eq; [apply path_eqb_eq in Eq; subst q; exact Wsy_own|].
+      * right; left. destruct (path_eqb q dd) eqn:Eq; [apply path_eqb_eq in Eq; subst q; exact Wsy_own|].
         rewrite Wsy_other by assumption. exact X.
+      * right; right. exists f. apply Hkept_ren; assumption.
   - (* du_z2 *)
     intros q Hq. destruct (child_of q dd) eqn:Hc.
     + rewrite (Wsy_child q Hc). rewrite Wpd_all in Hq by (rewrite Hc; apply orb_true_r).
@@ -1017,22 +1152,25 @@ Proof.
       rewrite Wsy_other by assumption. apply O. rewrite <- Wpd_other by assumption. exact Hq.
   - (* du_g1 *)
     intros q Hq. destruct (child_of q dd) eqn:Hc.
-    + right. split; [|split].
+    + right; right. split; [|split].
       * intro Hin. apply Hkeep_in in Hin as [_ He]. cbn in He. congruence.
       * rewrite (Wsy_child q Hc), (Hgn q Hq). reflexivity.
-      * apply Wpf_gone; assumption.
-    + destruct (P q Hq) as [X|(X1 & X2 & X3)].
+      * rewrite (Wh q Hc), iB. apply iG. exact Hq.
+    + destruct (P q Hq) as [X|[[r X]|(X1 & X2 & X3)]].
       * left. apply Hkeep_of; [exact X|]. cbn. exact Hc.
-      * right. split; [intro Hin; apply X1; apply Hkeep_in in Hin; tauto|]. split.
+      * right; left. exists r. apply Hkept_ren; [exact X|]. rewrite <- (Hsd q r X). exact Hc.
+      * right; right. split; [intro Hin; apply X1; apply Hkeep_in in Hin; tauto|]. split.
         -- destruct (path_eqb q dd) eqn:Eq.
-           ++ apply path_eqb_eq in Eq. subst q. apply I in Hq. unfold is_dir in Hq. fold t in Hq. rewrite Hdd in Hq. discriminate.
+           ++ apply path_eqb_eq in Eq. subst q. apply I in Hq. unfold is_dir in Hq. rewrite Hdd in Hq. discriminate.
            ++ rewrite Wsy_other by assumption. exact X2.
-        -- unfold has_file. rewrite Wpf_other by exact Hc. exact X3.
+        -- unfold has_file. rewrite Wo by exact Hc. exact X3.
   - (* du_rl *)
     intros q b Hin. pose proof (Hkeep_in _ Hin) as [Hp He]. cbn in He.
     rewrite V5. rewrite fold_filter_skip; [apply Q; exact Hp|].
-    intros o _ Ho a. apply (fx_step_entry dd). rewrite He. cbn. destruct (is_entry_op dd o); [reflexivity|discriminate].
+    intros o Ho Hne a. apply (fx_step_entry dd); [apply Hside; exact Ho|]. rewrite He. cbn.
+    destruct (is_entry_op dd o); [reflexivity|discriminate].
   - (* du_rd *) intros q Hin. apply Hkeep_in in Hin as [Hin _]. apply R. exact Hin.
+  - (* du_rtd *) intros f r Hin. apply Hkeep_in in Hin as [Hin _]. eapply Rt. exact Hin.
 Qed.
 
 (* ---- crash ------------------------------------------------------------------------------------------ *)
@@ -1114,22 +1252,28 @@ Definition crel (s : fs) (d : dworld) (o : pop) (w : N * nat * bytes) : Prop :=
     mem_path p (synced s) = durable_ino (dents d) i /\
     (mem_path p (synced s) = true -> nget (dents d) p = Some (EFile i)).
 
-Lemma wrel_crel s d g gd o w : InvF s (dw d) g -> Dur s d g gd -> wrel d g o w -> crel s d o w.
+Lemma wrel_crel s d g gd o w : InvF s (dw d) g -> Dur s d g gd -> In o (pending s) -> wrel d g o w -> crel s d o w.
 Proof.
-  intros HI HD (p & off & data & i & X1 & X2 & X3 & (Hlt & X4)).
-  pose proof HD as [A Ap And B C D E F G Gd G2 H I J K L M N O P Q R].
-  exists p, off, data, i. split; [exact X1|]. split; [exact X2|]. split; [exact X3|].
+  intros HI HD Hin (p & off & data & i & X1 & X2 & X3 & (Hlt & X4)).
+  pose proof HD as [A Ap And B C D E F G Gd G2 H I J K L M N O P Q R Rt].
+  subst o.
+  (* a path with a pending write is no name of a pending rename *)
+  assert (Hpt : forall f, ~ In (PRename f p) (pending s)).
+  { intros f Hf. destruct (rshape_no_pwrite _ f p _ _ _ (rw_shape _ (inv_rw _ _ _ HI) f p Hf) Hin) as [_ X]. congruence. }
+  exists p, off, data, i. split; [reflexivity|]. split; [exact X2|]. split; [exact X3|].
   rewrite B. destruct X4 as [Y|(Y1 & Y2 & [Y3|[Y3 Y4]])].
   - destruct (nget (dents d) p) as [[|j]|] eqn:Ed; cbn [some].
     + exfalso. apply D in Ed. destruct (G p Ed) as [Z|Z].
       * unfold is_dir in Z. rewrite Y in Z. discriminate.
       * apply Gd in Z. unfold is_file in Z. rewrite Y in Z. discriminate.
-    + destruct (H p j Ed) as [Z|Z].
+    + destruct (H p j Ed) as [Z|[Z|[f Z]]].
       * rewrite Y in Z. inversion Z; subst j. split; [|reflexivity].
         symmetry. apply durable_ino_iff; [exact And|eauto].
       * apply (inv_gone _ _ _ HI) in Z. unfold is_file in Z. rewrite Y in Z. discriminate.
+      * exfalso. eapply Hpt. exact Z.
     + split; [|discriminate]. destruct (durable_ino (dents d) i) eqn:Edi; [|reflexivity].
-      apply durable_ino_iff in Edi as [q Hq]; [|exact And]. assert (q = p) by (eapply J; eauto). subst q. congruence.
+      apply durable_ino_iff in Edi as [q Hq]; [|exact And]. pose proof (J p q i Hq Y) as Z.
+      rewrite (resolve_other s p Hpt) in Z. subst q. congruence.
   - rewrite Y3. cbn [some]. split; [|reflexivity]. symmetry. apply durable_ino_iff; [exact And|eauto].
   - rewrite Y3. cbn [some]. split; [|discriminate]. destruct (durable_ino (dents d) i) eqn:Edi; [|reflexivity].
     apply durable_ino_iff in Edi as [q Hq]; [|exact And]. exfalso. eapply Y4. exact Hq.
@@ -1213,7 +1357,7 @@ Lemma crash_refines s d g gd draws :
   InvF s (dw d) g -> Dur s d g gd -> dangling d = false ->
   InvF (crash s draws) (dw (dcrash d draws)) [] /\ Dur (crash s draws) (dcrash d draws) [] [].
 Proof.
-  intros HI HD Hdg. pose proof HD as [A Ap And B C D E F G Gd G2 H I J K L M N O P Q R].
+  intros HI HD Hdg. pose proof HD as [A Ap And B C D E F G Gd G2 H I J K L M N O P Q R Rt].
   assert (Hents : filter (fun x => reachable (dents d) (fst x)) (dents d) = dents d).
   { apply filter_all. unfold dangling in Hdg. apply negb_false_iff in Hdg. exact Hdg. }
   assert (Hreach : forall p e, nget (dents d) p = Some e -> reachable (dents d) p = true).
@@ -1232,7 +1376,7 @@ Proof.
   { unfold s1, cnt. rewrite <- A. destruct (Nat.eqb_spec (bsize s) 0) as [Hz|Hnz]; [exact C|].
     cbn [pfiles set_pending]. rewrite <- torn_writes_pwrites.
     apply (torn_sim s d (bsize s)); auto; try lia.
-    eapply Forall2_impl; [|exact Ap]. intros o w Hw. eapply wrel_crel; eauto. }
+    eapply Forall2_impl_in; [|exact Ap]. intros o w Ho Hw. apply in_pwrites in Ho as [Ho _]. eapply wrel_crel; eauto. }
   assert (Hcrash : crash s draws =
     {| pfiles := filter (fun e => mem_path (fst e) (synced s1)) (pfiles s1);
        pdirs := filter (fun q => mem_path q (synced s1)) (pdirs s1);
@@ -1272,11 +1416,13 @@ Proof.
     - rewrite (D q Ed). reflexivity.
     - rewrite andb_true_r. destruct (mem_path q (pdirs s)) eqn:Em; [|reflexivity]. exfalso.
       pose proof (G q Em) as Hdir.
-      destruct (H q i Ed) as [X|X]; destruct Hdir as [Y|Y].
+      destruct (H q i Ed) as [X|[X|[f X]]]; destruct Hdir as [Y|Y].
       + unfold is_dir in Y. rewrite X in Y. discriminate.
       + apply Gd in Y. unfold is_file in Y. rewrite X in Y. discriminate.
       + apply I in X. congruence.
       + apply G2 in X. congruence.
+      + destruct (inv_rd _ _ _ HI f q X). congruence.
+      + pose proof (Rt f q X). congruence.
     - apply andb_false_r. }
   assert (Himg : forall q i, nget (dents d) q = Some (EFile i) -> iget (image_files cnt (dents d)) i = iget cnt i).
   { intros q i Hq. rewrite iget_image, (nget_has_ino _ q i Hq). reflexivity. }
@@ -1285,11 +1431,12 @@ Proof.
   { intros q i Hq. unfold fcontent. cbn [pending s' fold_left]. rewrite Hpf, B, Hq. cbn [some].
     rewrite (HLI q i Hq). cbn [cont]. symmetry. eapply Himg. exact Hq. }
   split.
-  - constructor; cbn [dw names inodes next_ino].
-    + reflexivity.
+  - assert (Hres : forall q, resolve s' q = q) by (intro q; apply resolve_other; intros f []).
+    constructor; cbn [dw names inodes next_ino].
+    + apply RWf_norename. reflexivity.
     + intro q. rewrite Hfx. reflexivity.
     + intro q. rewrite Hdx. reflexivity.
-    + exact Hct.
+    + intros q i Hq. rewrite Hres. apply Hct. exact Hq.
     + intros q _ Hq. unfold fcontent. cbn [pending s' fold_left].
       unfold file_exists in Hq. cbn [pending s' fold_left] in Hq. unfold has_file in Hq.
       destruct (fget (pfiles s') q); [discriminate|reflexivity].
@@ -1301,7 +1448,11 @@ Proof.
       unfold is_dir. cbn [names]. pose proof (Hreach p e Hp) as Hr. unfold reachable in Hr.
       rewrite forallb_forall in Hr. specialize (Hr q (in_ancestors_parent p q Epar)).
       destruct (nget (dents d) q) as [[|?]|]; try discriminate. reflexivity.
-  - constructor; cbn [dw names inodes next_ino dents ddata dbs dpend bsize pending synced pfiles pdirs s'].
+    + intros f r [].
+    + intros f r [].
+    + intros f r [].
+  - assert (Hres : forall q, resolve s' q = q) by (intro q; apply resolve_other; intros f []).
+    constructor; cbn [dw names inodes next_ino dents ddata dbs dpend bsize pending synced pfiles pdirs s'].
     + exact A.
     + constructor.
     + exact And.
@@ -1309,7 +1460,7 @@ Proof.
     + intros q i Hq. change (fget (pfiles s') q = Some (iget (image_files cnt (dents d)) i)).
       rewrite Hpf, B, Hq. cbn [some]. rewrite (HLI q i Hq), (Himg q i Hq). reflexivity.
     + intros q Hq. change (mem_path q (pdirs s') = true). rewrite Hpd, B, Hq, (D q Hq). reflexivity.
-    + intros q i Hq. change (cont (fget (pfiles s') q) = iget (image_files cnt (dents d)) i).
+    + intros q i Hq. rewrite Hres. change (cont (fget (pfiles s') q) = iget (image_files cnt (dents d)) i).
       rewrite Hpf, B, Hq. cbn [some]. rewrite (HLI q i Hq), (Himg q i Hq). reflexivity.
     + intros q Hq. left. change (has_file (pfiles s') q = true) in Hq.
       pose proof (Hfx q) as X. unfold file_exists in X. cbn [pending s' fold_left] in X. rewrite Hq in X.
@@ -1321,20 +1472,21 @@ Proof.
     + discriminate.
     + intros q i Hq. left. exact Hq.
     + discriminate.
-    + intros p q i Hq Hp. eapply K; eauto.
+    + intros p q i Hq Hp. rewrite Hres. eapply K; eauto.
     + exact K.
     + exact L.
     + intros i Hi. rewrite iget_image.
       destruct (existsb _ (dents d)) eqn:Ee; [|reflexivity]. exfalso.
       assert (Hdi : durable_ino (dents d) i = true) by exact Ee.
       apply durable_ino_iff in Hdi as [q Hq]; [|exact And]. apply L in Hq. lia.
-    + intros q Hq. right. change (has_file (pfiles s') q = true) in Hq. unfold has_file in Hq. rewrite Hpf in Hq.
+    + intros q Hq. right; left. change (has_file (pfiles s') q = true) in Hq. unfold has_file in Hq. rewrite Hpf in Hq.
       destruct (mem_path q (synced s)); [reflexivity|discriminate].
     + intros q Hq. change (mem_path q (pdirs s') = true) in Hq. rewrite Hpd in Hq.
       apply andb_true_iff in Hq. tauto.
     + discriminate.
     + intros q b [].
     + intros q [].
+    + intros f r [].
 Qed.
 
 (* ---- one step of the durable simulation ------------------------------------------------------------ *)
@@ -1487,15 +1639,15 @@ Proof.
 Qed.
 
 Lemma dur_handle_ops s hs d g gd o :
-  InvF s (dw d) g -> HRel hs (shs (dw d)) -> Dur s d g gd -> op_classes (dw d) g o = [] ->
+  InvF s (dw d) g -> HRel hs (shs (dw d)) -> Dur s d g gd -> op_classes (dw d) g o = [] -> quiet s (dw d) g o ->
   match o with
   | WriteAt _ _ _ _ | Write _ _ _ | SetLen _ _ _ | SyncAll _ | SyncData _ => True
   | _ => False
   end ->
   Dur (wfs (fst (step (mkWorld s hs) o))) (fst (dstep d o)) g gd.
 Proof.
-  intros HF HH HD Hcl Hop. set (t := dw d) in *.
-  destruct o; try contradiction; clear Hop; cbn [op_classes] in Hcl; apply when_nil in Hcl;
+  intros HF HH HD Hcl Hqt Hop. set (t := dw d) in *.
+  destruct o; try contradiction; clear Hop; cbn [op_classes] in Hcl; apply when_nil in Hcl; cbn [quiet] in Hqt;
     unfold dstep; fold t; cbn [step sstep wfs whs].
   - (* WriteAt *)
     destruct (HRel_cases _ _ slot HH) as [[Hh Hs]|(h & sh & Hh & Hs & Hrel)]; rewrite Hh, Hs.
@@ -1503,7 +1655,7 @@ Proof.
     + pose proof (not_stale t slot sh Hs Hcl) as Hn.
       pose proof Hrel as (Hp & Hr & Hw & Ha & Hpos). rewrite <- Hw.
       destruct (hw h) eqn:Ehw; cbn [negb].
-      * destruct (write_at_refines s t g h sh (N.to_nat off) data false HF Hrel Hn Ehw) as [A _].
+      * destruct (write_at_refines s t g h sh (N.to_nat off) data false HF Hrel Hn Ehw (Hqt sh Hs)) as [A _].
         pose proof (dur_write_at s d g gd h sh (N.to_nat off) data coin
                       (set_inode t (sino sh) (pwrite (iget (inodes t) (sino sh)) (N.to_nat off) data))
                       HD Hrel Ehw eq_refl eq_refl Hn A) as X.
@@ -1521,7 +1673,7 @@ Proof.
       { rewrite Ha, Hpos, Hp. rewrite (InvF_len s t g _ _ HF Hn). reflexivity. }
       rewrite Hoff. set (off := if sa sh then length (iget (inodes t) (sino sh)) else spos sh).
       destruct (hw h) eqn:Ehw; cbn [negb].
-      * destruct (write_at_refines s t g h sh off data false HF Hrel Hn Ehw) as [A _].
+      * destruct (write_at_refines s t g h sh off data false HF Hrel Hn Ehw (Hqt sh Hs)) as [A _].
         set (t1 := set_shs (set_inode t (sino sh) (pwrite (iget (inodes t) (sino sh)) off data))
                            (sset (shs t) slot (sset_pos sh (off + length data)))).
         assert (A1 : InvF (fst (write_at s h off data false)) t1 g) by (apply InvF_shs; exact A).
@@ -1543,7 +1695,7 @@ Proof.
           [repeat split|reflexivity|reflexivity|cbn; apply path_eqb_refl|reflexivity|apply (inv_bound _ _ _ HF)]. }
       destruct coin; [|exact H1].
       apply Dur_sync_file; [|exact H1|exact Hn].
-      cbn [dw with_dw]. eapply InvF_push_data; eauto; cbn; rewrite path_eqb_refl; reflexivity.
+      cbn [dw with_dw]. eapply InvF_push_data; eauto; [cbn; apply path_eqb_refl|cbn; rewrite path_eqb_refl; reflexivity].
   - (* SyncAll *)
     destruct (HRel_cases _ _ slot HH) as [[Hh Hs]|(h & sh & Hh & Hs & Hrel)]; rewrite Hh, Hs.
     + cbn [fst snd is_err wfs]. same_tree HD.
@@ -1566,16 +1718,17 @@ Qed.
 
 Lemma dur_path_ops s hs d g gd o :
   InvF s (dw d) g -> Dur s d g gd -> op_classes (dw d) g o = [] -> kind_swap (dw d) g gd o = false ->
+  quiet s (dw d) g o ->
   match o with SyncDir _ | Mkdir _ | Rmdir _ | Unlink _ | Rename _ _ => True | _ => False end ->
   Dur (wfs (fst (step (mkWorld s hs) o))) (fst (dstep d o)) (gone_after (dw d) g o) (gd_after (dw d) gd o).
 Proof.
-  intros HF HD Hcl Hks Hop. set (t := dw d) in *.
-  destruct o; try contradiction; clear Hop; cbn [op_classes] in Hcl;
+  intros HF HD Hcl Hks Hqt Hop. set (t := dw d) in *.
+  destruct o; try contradiction; clear Hop; cbn [op_classes] in Hcl; cbn [quiet] in Hqt;
     unfold dstep; fold t; cbn [step sstep wfs whs gone_after gd_after].
   - (* SyncDir *)
     destruct (nget (names t) p) as [[|i]|] eqn:En; cbn [fst snd is_err].
     + assert (Hd : dir_exists s p = true) by (rewrite (inv_dx _ _ _ HF); apply is_dir_iff; exact En).
-      destruct (InvF_sync_dir s t g p HF Hd) as [_ B]. unfold res. rewrite B. cbn [fst wfs].
+      destruct (InvF_sync_dir s t g p HF Hd Hqt) as [_ B]. unfold res. rewrite B. cbn [fst wfs].
       replace (with_dw d t) with d by (symmetry; apply with_dw_id).
       apply Dur_sync_dir; assumption.
     + assert (Hd : dir_exists s p = false) by (rewrite (inv_dx _ _ _ HF); unfold is_dir; fold t; rewrite En; reflexivity).
@@ -1594,11 +1747,11 @@ Proof.
     unfold rmdir, res. rewrite (inv_dx _ _ _ HF). unfold is_dir. fold t.
     destruct (nget (names t) p) as [[|i]|] eqn:En; cbn [negb fst snd is_err wfs]; try same_tree HD.
     destruct p as [|a p]; [discriminate|].
-    rewrite (has_children_inv s t g _ HF).
+    rewrite (has_children_inv s t g _ HF Hqt).
     destruct (children t (a :: p)) eqn:Ech; cbn [fst snd is_err wfs].
     + apply Dur_rmdir; assumption.
     + (* not empty: nothing changes, but the path is recorded as a removed directory *)
-      pose proof HD as [A Ap And B C D E F G Gd G2 H I J K L M N O P Q R].
+      pose proof HD as [A Ap And B C D E F G Gd G2 H I J K L M N O P Q R Rt].
       assert (Hpd : is_dir t (a :: p) = true) by (apply is_dir_iff; exact En).
       apply Dur_tree; [|reflexivity|reflexivity].
       constructor; auto.
@@ -1610,6 +1763,8 @@ Proof.
         -- apply path_eqb_eq in Eq. subst q. apply I in Hq. fold t in Hq. congruence.
         -- apply G2. exact Hq.
       * intros q Hq. rewrite mem_path_cons, (R q Hq). apply orb_true_r.
+      * intros f r Hin. rewrite mem_path_cons, (Rt f r Hin), orb_false_r. apply path_eqb_neq. intro; subst r.
+        destruct (inv_rd _ _ _ HF f _ Hin). congruence.
   - (* Unlink *)
     unfold unlink, res. rewrite (inv_fx _ _ _ HF). unfold is_file. fold t.
     destruct (nget (names t) p) as [[|i]|] eqn:En; cbn [negb fst snd is_err wfs]; try same_tree HD.
@@ -1627,10 +1782,10 @@ Qed.
 
 Lemma dur_spit s hs d g gd p data coin :
   InvF s (dw d) g -> Dur s d g gd -> op_classes (dw d) g (Spit p data coin) = [] ->
-  kind_swap (dw d) g gd (Spit p data coin) = false ->
+  kind_swap (dw d) g gd (Spit p data coin) = false -> quiet s (dw d) g (Spit p data coin) ->
   Dur (wfs (fst (step (mkWorld s hs) (Spit p data coin)))) (fst (dstep d (Spit p data coin))) g gd.
 Proof.
-  intros HF HD Hcl Hks. cbn [op_classes] in Hcl. apply app_eq_nil in Hcl as [_ Hrc]. apply when_nil in Hrc.
+  intros HF HD Hcl Hks Hqt. cbn [quiet] in Hqt. cbn [op_classes] in Hcl. apply app_eq_nil in Hcl as [_ Hrc]. apply when_nil in Hrc.
   cbn [kind_swap] in Hks.
   set (t := dw d) in *. unfold dstep. fold t. cbn [step sstep wfs whs]. unfold open_file.
   rewrite (inv_fx _ _ _ HF p). fold t. cbn [andb orb].
@@ -1671,16 +1826,16 @@ Proof.
   - assert (Hpar : parent_is_dir t p = true) by (eapply inv_pc; eauto).
     assert (Hf : is_file t p = true) by (unfold is_file; rewrite En; reflexivity).
     rewrite Hpar, Hf. cbn [negb fst snd is_err].
-    assert (HIa : InvF (push s (PSetLen p 0)) (set_inode t i []) g).
-    { eapply InvF_push_data; eauto; cbn; rewrite path_eqb_refl; reflexivity. }
+    assert (HIa : InvF (push s (PSetLen p 0)) (set_inode t i []) g) by (apply InvF_trunc; assumption).
     assert (HIb : forall b l, data = b :: l -> InvF (push (push s (PSetLen p 0)) (PWrite p 0 data)) (set_inode t i data) g).
     { intros b l Hd. assert (Hn1 : nget (names (set_inode t i [])) p = Some (EFile i)) by exact En.
       pose proof (InvF_push_data _ _ g p i (PWrite p 0 data) (write_bytes [] 0 data) HIa Hn1) as X.
+      assert (P0 : forall f, ~ In (PRename f p) (pending (push s (PSetLen p 0)))) by (apply not_tgt_push; [reflexivity|exact Hqt]).
       assert (P1 : is_data_op p (PWrite p 0 data) = true) by (cbn; apply path_eqb_refl).
       assert (P2 : cstep p (iget (inodes (set_inode t i [])) i) (PWrite p 0 data) = write_bytes [] 0 data)
         by (cbn [cstep inodes set_inode]; rewrite path_eqb_refl, iget_iset, N.eqb_refl; reflexivity).
-      specialize (X P1 P2). rewrite write_bytes_nil0 in X.
-      destruct X as [A1 B C D E F G H I J]. constructor; auto.
+      specialize (X P1 P0 P2). rewrite write_bytes_nil0 in X.
+      destruct X as [A1 B C D E F G H I J K L M]. constructor; auto.
       intros q j Hq. rewrite (D q j Hq). cbn [inodes set_inode]. rewrite !iget_iset. destruct (i =? j); reflexivity. }
     specialize (Hwr s d i (set_inode t i data) HF HD En eq_refl eq_refl HIa HIb).
     cbn [names set_inode]. rewrite En.
@@ -1696,17 +1851,18 @@ Proof.
     set (t1 := {| names := nset (names t) p (EFile (next_ino t));
                   inodes := iset (inodes t) (next_ino t) data; next_ino := next_ino t + 1; shs := shs t |}).
     assert (Hn0 : nget (names t0) p = Some (EFile (next_ino t))) by (cbn [names t0]; rewrite nget_nset, path_eqb_refl; reflexivity).
-    assert (HIa : InvF (push (push s (CreateFile p)) (PSetLen p 0)) (set_inode t0 (next_ino t) []) g).
-    { eapply InvF_push_data; eauto; cbn; rewrite path_eqb_refl; reflexivity. }
+    assert (Hnt1 : forall f, ~ In (PRename f p) (pending (push s (CreateFile p)))) by (apply not_tgt_push; [reflexivity|exact Hqt]).
+    assert (HIa : InvF (push (push s (CreateFile p)) (PSetLen p 0)) (set_inode t0 (next_ino t) []) g) by (apply InvF_trunc; assumption).
     assert (HIb : forall b l, data = b :: l ->
               InvF (push (push (push s (CreateFile p)) (PSetLen p 0)) (PWrite p 0 data)) t1 g).
     { intros b l Hd. assert (Hn1 : nget (names (set_inode t0 (next_ino t) [])) p = Some (EFile (next_ino t))) by exact Hn0.
       pose proof (InvF_push_data _ _ g p (next_ino t) (PWrite p 0 data) (write_bytes [] 0 data) HIa Hn1) as X.
+      assert (P0 : forall f, ~ In (PRename f p) (pending (push (push s (CreateFile p)) (PSetLen p 0)))) by (apply not_tgt_push; [reflexivity|exact Hnt1]).
       assert (P1 : is_data_op p (PWrite p 0 data) = true) by (cbn; apply path_eqb_refl).
       assert (P2 : cstep p (iget (inodes (set_inode t0 (next_ino t) [])) (next_ino t)) (PWrite p 0 data) = write_bytes [] 0 data)
         by (cbn [cstep inodes set_inode]; rewrite path_eqb_refl, iget_iset, N.eqb_refl; reflexivity).
-      specialize (X P1 P2). rewrite write_bytes_nil0 in X.
-      destruct X as [A1 B C D E F G H I J]. constructor; auto.
+      specialize (X P1 P0 P2). rewrite write_bytes_nil0 in X.
+      destruct X as [A1 B C D E F G H I J K L M]. constructor; auto.
       intros q j Hq. rewrite (D q j Hq). cbn [inodes set_inode t0 t1]. rewrite !iget_iset.
       destruct (next_ino t =? j); reflexivity. }
     specialize (Hwr (push s (CreateFile p)) (with_dw d t0) (next_ino t) t1 HC HDC Hn0 eq_refl eq_refl HIa HIb).
@@ -1716,24 +1872,221 @@ Proof.
     destruct data as [|b data]; cbn [fst snd wfs with_fs]; exact Hwr.
 Qed.
 
+(* ---- a clean rename of a regular file ------------------------------------------------------------------ *)
+Lemma Dur_rename s d g gd f r i :
+  InvF s (dw d) g -> Dur s d g gd -> nget (names (dw d)) f = Some (EFile i) -> f <> r ->
+  is_dir (dw d) r = false -> mem_path r g = false -> mem_path r gd = false ->
+  ~ In f (rnames (pending s)) -> ~ In r (rnames (pending s)) ->
+  (forall o, In o (pending s) -> is_data_op f o = false /\ is_data_op r o = false) ->
+  Dur (push s (PRename f r)) (with_dw d (set_names (dw d) (nset (ndel (names (dw d)) f) r (EFile i)))) (f :: g) gd.
+Proof.
+  intros HI HD Hn Hne Hrd Hrg Hrgd Hfn Hrn Hdata.
+  pose proof HD as [A Ap And B C D E F G Gd G2 H I J K L M N O P Q R Rt].
+  assert (Hff : is_file (dw d) f = true) by (apply is_file_iff; eauto).
+  assert (Hfg : mem_path f g = false).
+  { destruct (mem_path f g) eqn:E0; [|reflexivity]. apply (inv_gone _ _ _ HI) in E0. congruence. }
+  assert (Hfgd : mem_path f gd = false).
+  { destruct (mem_path f gd) eqn:E0; [|reflexivity]. apply Gd in E0. congruence. }
+  assert (Hnew : forall q, nget (nset (ndel (names (dw d)) f) r (EFile i)) q =
+            if path_eqb r q then Some (EFile i) else if path_eqb f q then None else nget (names (dw d)) q).
+  { intro q. rewrite nget_nset, nget_ndel. reflexivity. }
+  assert (Hdir : forall q, is_dir (set_names (dw d) (nset (ndel (names (dw d)) f) r (EFile i))) q = is_dir (dw d) q).
+  { intro q. unfold is_dir. cbn [names set_names]. rewrite Hnew.
+    destruct (path_eqb r q) eqn:E1; [apply path_eqb_eq in E1; subst q; unfold is_dir in Hrd; destruct (nget (names (dw d)) r) as [[|?]|]; congruence|].
+    destruct (path_eqb f q) eqn:E2; [apply path_eqb_eq in E2; subst q; rewrite Hn; reflexivity|reflexivity]. }
+  assert (Hfile : forall q, is_file (set_names (dw d) (nset (ndel (names (dw d)) f) r (EFile i))) q =
+            if path_eqb f q then false else if path_eqb r q then true else is_file (dw d) q).
+  { intro q. unfold is_file. cbn [names set_names]. rewrite Hnew.
+    destruct (path_eqb f q) eqn:E2; destruct (path_eqb r q) eqn:E1; try reflexivity.
+    apply path_eqb_eq in E1, E2. congruence. }
+  assert (Hres : forall q, resolve (push s (PRename f r)) q = if path_eqb r q then f else resolve s q).
+  { intro q. rewrite resolve_push_ren. destruct (path_eqb r q); [|reflexivity].
+    apply resolve_other. apply not_tgt_of_rnames. exact Hfn. }
+  assert (Hren : forall f' r', In (PRename f' r') (pending s ++ [PRename f r]) <->
+            In (PRename f' r') (pending s) \/ (f' = f /\ r' = r)).
+  { intros f' r'. rewrite in_app_iff. cbn. split; [intros [X|[X|[]]]; [left; exact X|inversion X; right; auto]|].
+    intros [X|[-> ->]]; auto. }
+  constructor; cbn [pfiles pdirs synced pending bsize push set_pending dw with_dw dents ddata dbs dpend names next_ino set_names].
+  - exact A.
+  - (* du_pend *)
+    unfold pwrites. rewrite filter_app. cbn [filter is_pwrite]. rewrite app_nil_r. fold (pwrites (pending s)).
+    eapply Forall2_impl_in; [|exact Ap]. intros o w Hin (p0 & off0 & data0 & i0 & X1 & X2 & X3 & (Hlt & X4)).
+    apply in_pwrites in Hin as [Hin _]. subst o. destruct (Hdata _ Hin) as [D1 D2]. cbn in D1, D2.
+    exists p0, off0, data0, i0. split; [reflexivity|]. split; [exact X2|]. split; [exact X3|].
+    split; [exact Hlt|]. cbn [dw with_dw names set_names dents].
+    destruct X4 as [Y|(Y1 & Y2 & Y3)].
+    + left. rewrite Hnew. rewrite (path_eqb_sym r p0), D2, (path_eqb_sym f p0), D1. exact Y.
+    + right. split; [rewrite mem_path_cons, Y1; apply orb_true_r|]. split; [|exact Y3].
+      intro q. rewrite Hnew. destruct (path_eqb r q); [intro Hq; inversion Hq; subst i0; eapply Y2; exact Hn|].
+      destruct (path_eqb f q); [discriminate|apply Y2].
+  - exact And.
+  - exact B.
+  - exact C.
+  - exact D.
+  - (* du_cur *)
+    intros q j. rewrite Hnew, Hres. destruct (path_eqb r q) eqn:E1.
+    + intro Hj. inversion Hj; subst j. rewrite <- (E f i Hn). rewrite (resolve_other s f (not_tgt_of_rnames _ _ Hfn)). reflexivity.
+    + destruct (path_eqb f q); [discriminate|apply E].
+  - (* du_pf *)
+    intros q Hq. rewrite Hfile, mem_path_cons. destruct (path_eqb f q) eqn:E2; [right; rewrite path_eqb_sym, E2; reflexivity|].
+    destruct (path_eqb r q); [left; reflexivity|]. destruct (F q Hq) as [X|X]; [left; exact X|right; rewrite X; apply orb_true_r].
+  - (* du_pd *) intros q Hq. rewrite Hdir. apply G. exact Hq.
+  - (* du_kd *)
+    intros q Hq. rewrite Hfile. destruct (path_eqb f q); [reflexivity|].
+    destruct (path_eqb r q) eqn:E1; [apply path_eqb_eq in E1; subst q; congruence|apply Gd; exact Hq].
+  - (* du_k2 *)
+    intros q Hq. rewrite mem_path_cons in Hq. destruct (path_eqb q f) eqn:E2; [apply path_eqb_eq in E2; subst q; exact Hfgd|apply G2; exact Hq].
+  - (* du_ef *)
+    intros q j Hq. rewrite Hnew, mem_path_cons. destruct (H q j Hq) as [X|[X|[f' X]]].
+    + destruct (path_eqb r q) eqn:E1.
+      * apply path_eqb_eq in E1. subst q. right; right. exists f. apply Hren. right. auto.
+      * destruct (path_eqb f q) eqn:E2; [right; left; rewrite path_eqb_sym, E2; reflexivity|left; exact X].
+    + right; left. rewrite X. apply orb_true_r.
+    + right; right. exists f'. apply Hren. left. exact X.
+  - (* du_k *)
+    intros q Hq. rewrite Hdir. rewrite mem_path_cons in Hq. destruct (path_eqb q f) eqn:E2.
+    + apply path_eqb_eq in E2. subst q. unfold is_dir. rewrite Hn. reflexivity.
+    + apply I. exact Hq.
+  - (* du_u *)
+    intros p q j Hq. rewrite Hnew, Hres. destruct (path_eqb r p) eqn:E1.
+    + intro Hj. inversion Hj; subst j. pose proof (J f q i Hq Hn) as X.
+      rewrite (resolve_other s f (not_tgt_of_rnames _ _ Hfn)) in X. exact X.
+    + destruct (path_eqb f p); [discriminate|]. apply J. exact Hq.
+  - exact K.
+  - exact L.
+  - exact M.
+  - (* du_z1 *)
+    intros q Hq. destruct (N q Hq) as [X|[X|[f' X]]]; [left; apply in_or_app; left; exact X|right; left; exact X|].
+    right; right. exists f'. apply Hren. left. exact X.
+  - exact O.
+  - (* du_g1 *)
+    intros q Hq. rewrite mem_path_cons in Hq. destruct (path_eqb q f) eqn:E2.
+    + apply path_eqb_eq in E2. subst q. right; left. exists r. apply Hren. right. auto.
+    + destruct (P q Hq) as [X|[[r' X]|(X1 & X2 & X3)]].
+      * left. apply in_or_app. left. exact X.
+      * right; left. exists r'. apply Hren. left. exact X.
+      * right; right. split; [|split; assumption]. intro Hin. apply in_app_iff in Hin as [Hin|[Hin|[]]]; [contradiction|discriminate].
+  - (* du_rl *)
+    intros q b Hin. apply in_app_iff in Hin as [Hin|[Hin|[]]]; [|discriminate].
+    rewrite fold_left_app. cbn [fold_left]. rewrite (Q q b Hin). cbn [fx_step].
+    destruct (path_eqb f q); [reflexivity|].
+    destruct (path_eqb r q) eqn:E1; [|reflexivity]. apply path_eqb_eq in E1. subst q.
+    apply (inv_rm _ _ _ HI) in Hin. congruence.
+  - (* du_rd *)
+    intros q Hin. apply in_app_iff in Hin as [Hin|[Hin|[]]]; [apply R; exact Hin|discriminate].
+  - (* du_rtd *)
+    intros f' r' Hin. apply Hren in Hin as [Hin|[-> ->]]; [eapply Rt; exact Hin|exact Hrgd].
+Qed.
+
+(* what the log holds on the two names of a clean rename *)
+Lemma rename_keys s d g gd f r i :
+  InvF s (dw d) g -> Dur s d g gd -> nget (names (dw d)) f = Some (EFile i) ->
+  mem_path r g = false -> ~ In f (rnames (pending s)) -> ~ In r (rnames (pending s)) ->
+  (forall o, In o (pending s) -> is_data_op f o = false /\ is_data_op r o = false) ->
+  (forall o, In o (pending s) -> on_key f o = true -> o = CreateFile f) /\
+  (forall o, In o (pending s) -> on_key r o = true -> o = CreateFile r \/ o = CreateDir r \/ o = PRemoveDir r) /\
+  mem_path f (pdirs s) = false.
+Proof.
+  intros HI HD Hn Hrg Hfn Hrn Hdata.
+  assert (Hff : is_file (dw d) f = true) by (apply is_file_iff; eauto).
+  assert (Hfg : mem_path f g = false).
+  { destruct (mem_path f g) eqn:E0; [|reflexivity]. apply (inv_gone _ _ _ HI) in E0. congruence. }
+  destruct (log_kdir s d g gd HI HD f (or_introl Hff)) as [K1 K2].
+  split; [|split].
+  - intros o Ho Kf. destruct (on_key_cases f o Kf) as [->|[->|[->|[->|[Y|(f' & r' & -> & Y)]]]]]; auto; try contradiction.
+    + exfalso. apply (log_no_remove s d g HI f Hfg). exact Ho.
+    + destruct (Hdata o Ho). congruence.
+    + exfalso. apply Hfn. destruct (rnames_in _ _ _ Ho). destruct Y; subst; assumption.
+  - intros o Ho Kr. destruct (on_key_cases r o Kr) as [->|[->|[->|[->|[Y|(f' & r' & -> & Y)]]]]]; auto.
+    + exfalso. apply (log_no_remove s d g HI r Hrg). exact Ho.
+    + destruct (Hdata o Ho). congruence.
+    + exfalso. apply Hrn. destruct (rnames_in _ _ _ Ho). destruct Y; subst; assumption.
+  - destruct (mem_path f (pdirs s)) eqn:E0; [|reflexivity]. exfalso.
+    destruct (du_pd _ _ _ _ HD f E0) as [X|X].
+    + unfold is_dir in X. rewrite Hn in X. discriminate.
+    + apply (du_kd _ _ _ _ HD) in X. congruence.
+Qed.
+
+(* the side conditions of a clean rename: what the complement of RenameFile (a)-(d), of KindSwap and the
+   restriction to names no directory left give *)
+Definition rename_hyp (s : fs) (d : dworld) (g gd : list path) (f r : path) : Prop :=
+  is_root f = false /\ is_root r = false /\ f <> r /\
+  (rename_ok (dw d) f r = true ->
+     mem_path r g = false /\ mem_path r gd = false /\
+     ~ In f (rnames (pending s)) /\ ~ In r (rnames (pending s)) /\
+     (forall o, In o (pending s) -> is_data_op f o = false /\ is_data_op r o = false)).
+
+Lemma rename_file_refines s hs d g gd f r i :
+  InvF s (dw d) g -> HRel hs (shs (dw d)) -> Dur s d g gd ->
+  nget (names (dw d)) f = Some (EFile i) -> rename_hyp s d g gd f r ->
+  DInv (fst (step (mkWorld s hs) (Rename f r))) (fst (dstep d (Rename f r)))
+       (gone_after (dw d) g (Rename f r)) gd /\
+  obs_ok (snd (dstep d (Rename f r))) (snd (step (mkWorld s hs) (Rename f r))).
+Proof.
+  intros HF HH HD Hn (Hrf & Hrr & Hne & Hok).
+  assert (Hstep : StepOk (mkWorld s hs) (dw d) g (Rename f r)).
+  { apply (step_rename_file s hs (dw d) g f r i HF HH Hn Hne Hrf Hrr). intro Hk.
+    destruct (Hok Hk) as (K1 & K2 & K3 & K4 & K5).
+    destruct (rename_keys s d g gd f r i HF HD Hn K1 K3 K4 K5) as (A & B & C). auto 7. }
+  destruct Hstep as [[HF' HH'] Hobs].
+  destruct (dstep_tree d (Rename f r)) as [Ht Hx]; [intros x; discriminate|].
+  rewrite Hx. split; [|exact Hobs]. unfold DInv. rewrite Ht. split; [exact HF'|]. split; [exact HH'|].
+  (* the durable side *)
+  assert (Hd : fst (dstep d (Rename f r)) = with_dw d (fst (sstep (dw d) (Rename f r)))).
+  { unfold dstep. destruct (sstep (dw d) (Rename f r)) as [t1 x]. cbn [fst]. destruct (is_err x); reflexivity. }
+  rewrite Hd. clear Hd Ht Hx HF' HH' Hobs. cbn [step sstep gone_after wfs whs fst]. rewrite Hn.
+  unfold rename_ok in *. unfold srename in *.
+  destruct f as [|a f]; [discriminate|]. destruct r as [|b r]; [discriminate|]. rewrite Hn in *.
+  assert (Hfe : file_exists s (a :: f) = true) by (rewrite (inv_fx _ _ _ HF); apply is_file_iff; eauto).
+  rewrite res_fs. unfold rename. rewrite (parent_exists_inv s (dw d) g _ HF), Hfe, (inv_dx _ _ _ HF).
+  destruct (parent_is_dir (dw d) (b :: r)) eqn:Hpar; cbn [negb fst snd] in *; [|same_tree HD].
+  unfold is_dir. destruct (nget (names (dw d)) (b :: r)) as [[|j]|] eqn:Er; cbn [fst snd] in *; [same_tree HD| |].
+  - destruct (path_eqb (a :: f) (b :: r)) eqn:E0; [apply path_eqb_eq in E0; congruence|]. cbn [fst snd] in *.
+    destruct (Hok eq_refl) as (K1 & K2 & K3 & K4 & K5).
+    apply Dur_rename; auto. unfold is_dir. rewrite Er. reflexivity.
+  - destruct (path_eqb (a :: f) (b :: r)) eqn:E0; [apply path_eqb_eq in E0; congruence|]. cbn [fst snd] in *.
+    destruct (Hok eq_refl) as (K1 & K2 & K3 & K4 & K5).
+    apply Dur_rename; auto. unfold is_dir. rewrite Er. reflexivity.
+Qed.
+
+(* ---- one step ------------------------------------------------------------------------------------------- *)
+Definition step_hyp (s : fs) (d : dworld) (g gd : list path) (o : op) : Prop :=
+  match o with
+  | Rename f r =>
+      match nget (names (dw d)) f with
+      | Some (EFile _) => rename_hyp s d g gd f r
+      | _ => op_classes (dw d) g o = []
+      end
+  | _ => op_classes (dw d) g o = [] /\ kind_swap (dw d) g gd o = false /\ quiet s (dw d) g o
+  end.
+
 Lemma dstep_refines w d g gd o :
-  DInv w d g gd -> c07_op o = true -> op_classes (dw d) g o = [] -> kind_swap (dw d) g gd o = false ->
+  DInv w d g gd -> c07_op o = true -> step_hyp (wfs w) d g gd o ->
   (forall x, o = Crash x -> dangling d = false) ->
   DInv (fst (step w o)) (fst (dstep d o)) (gone_after (dw d) g o) (gd_after (dw d) gd o) /\
   obs_ok (snd (dstep d o)) (snd (step w o)).
 Proof.
-  intros (HF & HH & HD) Hop Hcl Hks Hdg.
+  intros (HF & HH & HD) Hop Hhyp Hdg.
   destruct (match o with Crash _ => true | _ => false end) eqn:Hcr.
   - destruct o; try discriminate. cbn [step dstep fst snd gone_after gd_after wfs whs].
     destruct (crash_refines (wfs w) d g gd draws HF HD (Hdg draws eq_refl)) as [A B].
     split; [|reflexivity]. split; [exact A|]. split; [|exact B].
     intro slot. cbn. exact I.
-  - assert (Hnc : forall x, o <> Crash x) by (intros x Hx; subst o; discriminate).
+  - destruct w as [s hs]. cbn [wfs whs] in *.
+    (* a rename of a regular file *)
+    destruct (match o with Rename f _ => match nget (names (dw d)) f with Some (EFile _) => true | _ => false end | _ => false end) eqn:Hrn.
+    { destruct o; try discriminate. cbn [step_hyp] in Hhyp.
+      destruct (nget (names (dw d)) f) as [[|i]|] eqn:En; try discriminate.
+      cbn [gd_after]. exact (rename_file_refines s hs d g gd f t i HF HH HD En Hhyp). }
+    assert (Hcl : op_classes (dw d) g o = [] /\ kind_swap (dw d) g gd o = false /\ quiet s (dw d) g o).
+    { destruct o; cbn [step_hyp] in Hhyp; try exact Hhyp.
+      destruct (nget (names (dw d)) f) as [[|i]|] eqn:En; try discriminate; (split; [exact Hhyp|split; [reflexivity|exact Logic.I]]). }
+    destruct Hcl as (Hcl & Hks & Hqt).
+    assert (Hnc : forall x, o <> Crash x) by (intros x Hx; subst o; discriminate).
     assert (Hc10 : c10_op o = true) by (destruct o; try reflexivity; discriminate).
-    destruct (step_refines w (dw d) g o (conj HF HH) Hc10 Hcl) as [[HF' HH'] Hobs].
+    destruct (step_refines_q (mkWorld s hs) (dw d) g o (conj HF HH) Hc10 Hcl Hqt) as [[HF' HH'] Hobs].
     destruct (dstep_tree d o Hnc) as [Ht Hx]. rewrite Hx. split; [|exact Hobs].
     unfold DInv. rewrite Ht. split; [exact HF'|]. split; [exact HH'|].
-    destruct w as [s hs]. cbn [wfs whs] in *.
     destruct (readonly_op o) eqn:Hro.
     + rewrite (step_readonly _ o Hro). cbn [wfs].
       destruct (dstep_readonly d o Hro) as (S1 & S2 & S3 & S4).
@@ -1742,17 +2095,17 @@ Proof.
       eapply Dur_ext; eauto.
     + destruct o; try discriminate.
       * exact (dur_open s hs d g gd slot p r w a t c n HF HD Hcl Hks).
-      * exact (dur_handle_ops s hs d g gd _ HF HH HD Hcl I).
-      * exact (dur_handle_ops s hs d g gd _ HF HH HD Hcl I).
-      * exact (dur_handle_ops s hs d g gd _ HF HH HD Hcl I).
-      * exact (dur_handle_ops s hs d g gd _ HF HH HD Hcl I).
-      * exact (dur_handle_ops s hs d g gd _ HF HH HD Hcl I).
-      * exact (dur_path_ops s hs d g gd _ HF HD Hcl Hks I).
-      * exact (dur_path_ops s hs d g gd _ HF HD Hcl Hks I).
-      * exact (dur_path_ops s hs d g gd _ HF HD Hcl Hks I).
-      * exact (dur_path_ops s hs d g gd _ HF HD Hcl Hks I).
-      * exact (dur_path_ops s hs d g gd _ HF HD Hcl Hks I).
-      * exact (dur_spit s hs d g gd p data coin HF HD Hcl Hks).
+      * exact (dur_handle_ops s hs d g gd _ HF HH HD Hcl Hqt I).
+      * exact (dur_handle_ops s hs d g gd _ HF HH HD Hcl Hqt I).
+      * exact (dur_handle_ops s hs d g gd _ HF HH HD Hcl Hqt I).
+      * exact (dur_handle_ops s hs d g gd _ HF HH HD Hcl Hqt I).
+      * exact (dur_handle_ops s hs d g gd _ HF HH HD Hcl Hqt I).
+      * exact (dur_path_ops s hs d g gd _ HF HD Hcl Hks Hqt I).
+      * exact (dur_path_ops s hs d g gd _ HF HD Hcl Hks Hqt I).
+      * exact (dur_path_ops s hs d g gd _ HF HD Hcl Hks Hqt I).
+      * exact (dur_path_ops s hs d g gd _ HF HD Hcl Hks Hqt I).
+      * exact (dur_path_ops s hs d g gd _ HF HD Hcl Hks Hqt I).
+      * exact (dur_spit s hs d g gd p data coin HF HD Hcl Hks Hqt).
 Qed.
 
 Lemma DInv_init b : DInv (init_world b) (init_dworld b) [] [].
@@ -1775,13 +2128,32 @@ Proof.
   - intros p H. exact H.
   - intros p b0 [].
   - intros p [].
+  - intros f r [].
+Qed.
+
+(* without a pending rename: the classes of FsSafe (which exclude every rename of a regular file) suffice *)
+Lemma step_hyp_norename s d g gd o : norename s ->
+  op_classes (dw d) g o = [] -> kind_swap (dw d) g gd o = false -> step_hyp s d g gd o.
+Proof.
+  intros Hnr Hcl Hks. destruct o; cbn [step_hyp]; try (split; [exact Hcl|split; [exact Hks|apply quiet_norename; exact Hnr]]).
+  destruct (nget (names (dw d)) f) as [[|i]|] eqn:En; try exact Hcl.
+  cbn [op_classes] in Hcl. rewrite En in Hcl. apply app_eq_nil in Hcl as [_ Hcl]. discriminate.
+Qed.
+
+Lemma dstep_norename w d g gd o : DInv w d g gd -> norename (wfs w) -> c07_op o = true ->
+  op_classes (dw d) g o = [] -> norename (wfs (fst (step w o))).
+Proof.
+  intros (HF & HH & _) Hnr Hop Hcl. destruct (match o with Crash _ => true | _ => false end) eqn:Hcr.
+  - destruct o; try discriminate. reflexivity.
+  - assert (Hc10 : c10_op o = true) by (destruct o; try reflexivity; discriminate).
+    apply (step_refines w (dw d) g o (conj HF HH) Hnr Hc10 Hcl).
 Qed.
 
 Lemma drun_refines : forall l w d g gd,
-  DInv w d g gd -> forallb c07_op l = true -> dsafe_from d g gd l = true ->
+  DInv w d g gd -> norename (wfs w) -> forallb c07_op l = true -> dsafe_from d g gd l = true ->
   Forall2 obs_ok (snd (drun d l)) (snd (run w l)).
 Proof.
-  induction l as [|o l IH]; intros w d g gd HI Hal Hs; cbn [drun run].
+  induction l as [|o l IH]; intros w d g gd HI Hnr Hal Hs; cbn [drun run].
   - constructor.
   - cbn in Hal. apply andb_true_iff in Hal as [Ho Hal].
     cbn [dsafe_from] in Hs. apply andb_true_iff in Hs as [Hs Hs4]. apply andb_true_iff in Hs as [Hs Hs3].
@@ -1790,9 +2162,10 @@ Proof.
     apply negb_true_iff in Hs2.
     assert (Hdg : forall x, o = Crash x -> dangling d = false).
     { intros x Hx. subst o. apply negb_true_iff in Hs3. exact Hs3. }
-    destruct (dstep_refines w d g gd o HI Ho Hcl Hs2 Hdg) as [HI' Hobs].
+    destruct (dstep_refines w d g gd o HI Ho (step_hyp_norename _ d g gd o Hnr Hcl Hs2) Hdg) as [HI' Hobs].
+    pose proof (dstep_norename w d g gd o HI Hnr Ho Hcl) as Hnr'.
     destruct (dstep d o) as [d1 y] eqn:Es. destruct (step w o) as [w1 x] eqn:Ew. cbn [fst snd] in *.
-    specialize (IH w1 d1 _ _ HI' Hal Hs4).
+    specialize (IH w1 d1 _ _ HI' Hnr' Hal Hs4).
     destruct (drun d1 l) as [d2 ys]. destruct (run w1 l) as [w2 xs]. cbn [fst snd] in *.
     constructor; assumption.
 Qed.
@@ -1800,4 +2173,4 @@ Qed.
 Theorem crash_image_lemma : forall bs l,
   forallb c07_op l = true -> dsafe bs l = true ->
   Forall2 obs_ok (snd (drun (init_dworld bs) l)) (snd (run (init_world bs) l)).
-Proof. intros bs l Hal Hs. exact (drun_refines l _ _ [] [] (DInv_init bs) Hal Hs). Qed.
+Proof. intros bs l Hal Hs. exact (drun_refines l _ _ [] [] (DInv_init bs) eq_refl Hal Hs). Qed.
